@@ -2,69 +2,267 @@
 //! stores; after every history each live store's verif_audit vector and content by index are
 //! compared with the Coq ownership model (C10/Model.v); oracle: no store ever points into memory
 //! it does not own, and a clone keeps the content it had when cloned.
+//!
+//! Widened after the coverage report: every way of building a store (Default, `new()`, `from_*_source`,
+//! `collect_*`, `insert_all`), of cloning it (Clone, clone_from, Box/Rc/Arc/Vec/Option/Cow/array/tuple clones,
+//! `Rc::make_mut`, `vec![x; n]`, `resize`, clone of a clone, collecting the statements of a live store into
+//! another store type), of moving it (swap, take, replace, into and out of Box/Rc/Arc/Vec, to another thread and
+//! back) and of dropping it (drop, overwrite, `Vec::clear`/`truncate`, drop on another thread); stores indexed
+//! by usize/u16/u32 and by tiny capacity-limited indexes (error branches); default-graph quads; statements
+//! given through a term type whose accessors return OWNED strings (the owned branch of `ensure_owned`);
+//! statement-level comparison of every live store with a shadow after every step.
+use sophia_api::dataset::CollectibleDataset;
+use sophia_api::graph::CollectibleGraph;
 use sophia_api::prelude::*;
-use sophia_inmem::dataset::{FastDataset, LightDataset};
-use sophia_inmem::graph::{FastGraph, LightGraph};
-use sophia_inmem::index::{SimpleTermIndex, TermIndex};
+use sophia_api::term::{GraphName, SimpleTerm, TermKind};
+use sophia_api::MownStr;
+use sophia_inmem::dataset::{GenericFastDataset, GenericLightDataset};
+use sophia_inmem::graph::{FastGraph, GenericFastGraph, GenericLightGraph, LightGraph};
+use sophia_inmem::index::{Index, SimpleTermIndex, TermIndex, TermIndexFullError};
+use std::borrow::Cow;
+use std::rc::Rc;
+use std::sync::Arc;
 use verif_harness::*;
-use sophia_api::term::GraphName;
 
-type S6 = SimpleTermIndex<SmallIdx<6>>;
-type G9 = sophia_inmem::graph::GenericFastGraph<SimpleTermIndex<SmallIdx<9>>>;
-enum Store { S6(S6), G9(G9), I32(SimpleTermIndex<u32>), I16(SimpleTermIndex<u16>), FG(FastGraph), LG(LightGraph), FD(FastDataset), LD(LightDataset), SFG(sophia_inmem::graph::small::FastGraph) }
+type Ti<I> = SimpleTermIndex<I>;
+type TFE = TermIndexFullError;
+/// the type of the terms that the stores hand out (by reference): whatever SimpleTermIndex declares
+type IT = <SimpleTermIndex<u32> as TermIndex>::Term;
+type S6 = Ti<SmallIdx<6>>;
+type G9 = GenericFastGraph<Ti<SmallIdx<9>>>;
+type LG9 = GenericLightGraph<Ti<SmallIdx<9>>>;
+type LD9 = GenericLightDataset<Ti<SmallIdx<9>>>;
+type FD9 = GenericFastDataset<Ti<SmallIdx<9>>>;
+type I32 = Ti<u32>;
+type I16 = Ti<u16>;
+type IUS = Ti<usize>;
+type FG = sophia_inmem::graph::FastGraph;
+type LG = sophia_inmem::graph::LightGraph;
+type FD = sophia_inmem::dataset::FastDataset;
+type LD = sophia_inmem::dataset::LightDataset;
+type SFG = sophia_inmem::graph::small::FastGraph;
+type SLG = sophia_inmem::graph::small::LightGraph;
+type SFD = sophia_inmem::dataset::small::FastDataset;
+type SLD = sophia_inmem::dataset::small::LightDataset;
+type LGU = GenericLightGraph<Ti<usize>>;
+type FDU = GenericFastDataset<Ti<usize>>;
+
+thread_local! { static QUIET: std::cell::Cell<bool> = std::cell::Cell::new(false); }
+
+/// A term type whose accessors return OWNED strings (as the native literals i32, f64, ... do): SimpleTerm::from_term
+/// then goes through the owned branch of `ensure_owned` (clone + transmute to 'static); the key must own a fresh copy.
+#[derive(Clone, Copy, Debug)]
+struct OwnT<'a>(&'a ST);
+impl<'a> Term for OwnT<'a> {
+    type BorrowTerm<'x> = OwnT<'a> where Self: 'x;
+    fn kind(&self) -> TermKind { self.0.kind() }
+    fn borrow_term(&self) -> OwnT<'a> { *self }
+    fn iri(&self) -> Option<sophia_api::term::IriRef<MownStr<'_>>> { self.0.iri().map(|i| sophia_api::term::IriRef::new_unchecked(MownStr::from(i.as_str().to_string()))) }
+    fn bnode_id(&self) -> Option<sophia_api::term::BnodeId<MownStr<'_>>> { self.0.bnode_id().map(|i| sophia_api::term::BnodeId::new_unchecked(MownStr::from(i.as_str().to_string()))) }
+    fn lexical_form(&self) -> Option<MownStr<'_>> { self.0.lexical_form().map(|l| MownStr::from(l.to_string())) }
+    fn datatype(&self) -> Option<sophia_api::term::IriRef<MownStr<'_>>> { self.0.datatype().map(|i| sophia_api::term::IriRef::new_unchecked(MownStr::from(i.as_str().to_string()))) }
+    fn language_tag(&self) -> Option<sophia_api::term::LanguageTag<MownStr<'_>>> { self.0.language_tag().map(|i| sophia_api::term::LanguageTag::new_unchecked(MownStr::from(i.as_str().to_string()))) }
+    fn variable(&self) -> Option<sophia_api::term::VarName<MownStr<'_>>> { self.0.variable().map(|i| sophia_api::term::VarName::new_unchecked(MownStr::from(i.as_str().to_string()))) }
+    fn triple(&self) -> Option<[OwnT<'a>; 3]> { self.0.triple().map(|[s, p, o]| [OwnT(s), OwnT(p), OwnT(o)]) }
+    fn to_triple(self) -> Option<[OwnT<'a>; 3]> { self.triple() }
+}
+
+/// what a live store offers as a SOURCE for building / extending another store (borrowing from the live store)
+trait Src {
+    fn fam(&self) -> u8;
+    fn terms_dyn(&self) -> Box<dyn Iterator<Item = &IT> + '_>;
+    fn triples_dyn(&self) -> Box<dyn Iterator<Item = Result<[&IT; 3], TFE>> + '_> { Box::new(std::iter::empty()) }
+    fn quads_dyn(&self) -> Box<dyn Iterator<Item = Result<(GraphName<&IT>, [&IT; 3]), TFE>> + '_> { Box::new(std::iter::empty()) }
+}
+/// uniform view of the 18 store types (three generic impls: index, graphs, datasets)
+trait St: Clone + Default + Send + Src + 'static {
+    type I: Index + Default + Send + 'static;
+    fn ti(&self) -> &Ti<Self::I>;
+    /// 0 Default::default(), 1 the inherent new(), 2 the bulk constructor on an empty source, 3 mem::take of a new() one
+    fn mk(how: usize) -> Self;
+    /// Ok(Some(changed?)) for graphs/datasets, Ok(None) for bare indexes (each term interned); Err = term index full
+    fn ins<T: Term + Copy>(&mut self, t: [T; 3], g: Option<T>) -> Result<Option<bool>, ()>;
+    fn rem(&mut self, t: [&ST; 3], g: Option<&ST>) -> Option<bool>;
+    fn shapes(&self, _absent: &ST) -> Option<String> { None }
+    /// build a new store from the statements (terms, for bare indexes) of a live store
+    fn collect_from(src: &dyn Src, how: usize) -> Result<Self, ()>;
+    fn extend_from(&mut self, src: &dyn Src) -> Result<(), ()>;
+}
+impl<I: Index + Default + Send + 'static> Src for Ti<I> {
+    fn fam(&self) -> u8 { 0 }
+    fn terms_dyn(&self) -> Box<dyn Iterator<Item = &IT> + '_> { Box::new((0..self.len()).map(move |i| self.get_term(I::from_usize(i)))) }
+}
+impl<I: Index + Default + Send + 'static> St for Ti<I> {
+    type I = I;
+    fn ti(&self) -> &Ti<I> { self }
+    fn mk(how: usize) -> Self { match how { 0 => Default::default(), 3 => std::mem::take(&mut Self::new()), _ => Self::new() } }
+    fn ins<T: Term + Copy>(&mut self, t: [T; 3], g: Option<T>) -> Result<Option<bool>, ()> {
+        for x in t { self.ensure_index(x).map_err(|_| ())?; }
+        if let Some(g) = g { self.ensure_index(g).map_err(|_| ())?; }
+        Ok(None)
+    }
+    fn rem(&mut self, _t: [&ST; 3], _g: Option<&ST>) -> Option<bool> { None }
+    fn collect_from(src: &dyn Src, how: usize) -> Result<Self, ()> { let mut x = Self::mk(how); x.extend_from(src)?; Ok(x) }
+    fn extend_from(&mut self, src: &dyn Src) -> Result<(), ()> { for t in src.terms_dyn() { self.ensure_index(t).map_err(|_| ())?; } Ok(()) }
+}
+macro_rules! graph_impl { ($G:ident) => {
+    impl<I: Index + Default + Send + 'static> Src for $G<Ti<I>> {
+        fn fam(&self) -> u8 { 1 }
+        fn terms_dyn(&self) -> Box<dyn Iterator<Item = &IT> + '_> { let ti = self.verif_term_index(); Box::new((0..ti.len()).map(move |i| ti.get_term(I::from_usize(i)))) }
+        fn triples_dyn(&self) -> Box<dyn Iterator<Item = Result<[&IT; 3], TFE>> + '_> { Box::new(self.triples()) }
+    }
+    impl<I: Index + Default + Send + 'static> St for $G<Ti<I>> {
+        type I = I;
+        fn ti(&self) -> &Ti<I> { self.verif_term_index() }
+        fn mk(how: usize) -> Self { match how { 0 => Default::default(), 1 => Self::new(), 2 => Self::from_triple_source(std::iter::empty::<Result<[ST; 3], TFE>>()).ok().unwrap(), _ => std::mem::take(&mut Self::new()) } }
+        fn ins<T: Term + Copy>(&mut self, t: [T; 3], _g: Option<T>) -> Result<Option<bool>, ()> { self.insert(t[0], t[1], t[2]).map(Some).map_err(|_| ()) }
+        fn rem(&mut self, t: [&ST; 3], _g: Option<&ST>) -> Option<bool> { Some(self.remove(t[0], t[1], t[2]).unwrap()) }
+        fn shapes(&self, absent: &ST) -> Option<String> { graph_shapes(self, absent) }
+        fn collect_from(src: &dyn Src, how: usize) -> Result<Self, ()> { match how {
+            0 => Self::from_triple_source(src.triples_dyn()).map_err(|_| ()),
+            1 => src.triples_dyn().collect_triples::<Self>().map_err(|_| ()),
+            2 => { let mut g = Self::new(); g.insert_all(src.triples_dyn()).map_err(|_| ())?; Ok(g) }
+            _ => { let v: Vec<[ST; 3]> = src.triples_dyn().map(|t| t.unwrap().map(|x| x.into_term())).collect(); Self::from_triple_source(v.triples()).map_err(|_| ()) }
+        } }
+        fn extend_from(&mut self, src: &dyn Src) -> Result<(), ()> { self.insert_all(src.triples_dyn()).map(|_| ()).map_err(|_| ()) }
+    }
+} }
+graph_impl!(GenericFastGraph);
+graph_impl!(GenericLightGraph);
+macro_rules! dataset_impl { ($D:ident) => {
+    impl<I: Index + Default + Send + 'static> Src for $D<Ti<I>> {
+        fn fam(&self) -> u8 { 2 }
+        fn terms_dyn(&self) -> Box<dyn Iterator<Item = &IT> + '_> { let ti = self.verif_term_index(); Box::new((0..ti.len()).map(move |i| ti.get_term(I::from_usize(i)))) }
+        fn quads_dyn(&self) -> Box<dyn Iterator<Item = Result<(GraphName<&IT>, [&IT; 3]), TFE>> + '_> { Box::new(self.quads()) }
+    }
+    impl<I: Index + Default + Send + 'static> St for $D<Ti<I>> {
+        type I = I;
+        fn ti(&self) -> &Ti<I> { self.verif_term_index() }
+        fn mk(how: usize) -> Self { match how { 0 => Default::default(), 1 => Self::new(), 2 => Self::from_quad_source(std::iter::empty::<Result<([ST; 3], Option<ST>), TFE>>()).ok().unwrap(), _ => std::mem::take(&mut Self::new()) } }
+        fn ins<T: Term + Copy>(&mut self, t: [T; 3], g: Option<T>) -> Result<Option<bool>, ()> { self.insert(t[0], t[1], t[2], g).map(Some).map_err(|_| ()) }
+        fn rem(&mut self, t: [&ST; 3], g: Option<&ST>) -> Option<bool> { Some(self.remove(t[0], t[1], t[2], g).unwrap()) }
+        fn shapes(&self, absent: &ST) -> Option<String> { dataset_shapes(self, absent) }
+        fn collect_from(src: &dyn Src, how: usize) -> Result<Self, ()> { match how {
+            0 => Self::from_quad_source(src.quads_dyn()).map_err(|_| ()),
+            1 => src.quads_dyn().collect_quads::<Self>().map_err(|_| ()),
+            2 => { let mut d = Self::new(); d.insert_all(src.quads_dyn()).map_err(|_| ())?; Ok(d) }
+            _ => { let v: Vec<([ST; 3], Option<ST>)> = src.quads_dyn().map(|q| { let (g, t) = q.unwrap(); (t.map(|x| x.into_term()), g.map(|x| x.into_term())) }).collect(); Self::from_quad_source(v.quads()).map_err(|_| ()) }
+        } }
+        fn extend_from(&mut self, src: &dyn Src) -> Result<(), ()> { self.insert_all(src.quads_dyn()).map(|_| ()).map_err(|_| ()) }
+    }
+} }
+dataset_impl!(GenericFastDataset);
+dataset_impl!(GenericLightDataset);
+
+#[allow(clippy::large_enum_variant)]
+enum Store { S6(S6), G9(G9), I32(I32), I16(I16), FG(FG), LG(LG), FD(FD), LD(LD), SFG(SFG), IUS(IUS), LGU(LGU), FDU(FDU), SLG(SLG), SFD(SFD), SLD(SLD), LG9(LG9), LD9(LD9), FD9(FD9) }
+const NKINDS: usize = 18;
+macro_rules! each { ($s:expr; $x:ident => $e:expr) => { match $s {
+    Store::S6($x) => $e, Store::G9($x) => $e, Store::I32($x) => $e, Store::I16($x) => $e, Store::FG($x) => $e, Store::LG($x) => $e, Store::FD($x) => $e, Store::LD($x) => $e, Store::SFG($x) => $e,
+    Store::IUS($x) => $e, Store::LGU($x) => $e, Store::FDU($x) => $e, Store::SLG($x) => $e, Store::SFD($x) => $e, Store::SLD($x) => $e, Store::LG9($x) => $e, Store::LD9($x) => $e, Store::FD9($x) => $e } } }
+macro_rules! wrap { ($s:expr; $x:ident => $e:expr) => { match $s {
+    Store::S6($x) => Store::S6($e), Store::G9($x) => Store::G9($e), Store::I32($x) => Store::I32($e), Store::I16($x) => Store::I16($e), Store::FG($x) => Store::FG($e), Store::LG($x) => Store::LG($e), Store::FD($x) => Store::FD($e), Store::LD($x) => Store::LD($e), Store::SFG($x) => Store::SFG($e),
+    Store::IUS($x) => Store::IUS($e), Store::LGU($x) => Store::LGU($e), Store::FDU($x) => Store::FDU($e), Store::SLG($x) => Store::SLG($e), Store::SFD($x) => Store::SFD($e), Store::SLD($x) => Store::SLD($e), Store::LG9($x) => Store::LG9($e), Store::LD9($x) => Store::LD9($e), Store::FD9($x) => Store::FD9($e) } } }
+/// kind numbers (0..=8 as before the widening)
+macro_rules! by_kind { ($k:expr; $T:ident, $V:ident => $e:expr) => { match $k {
+    7 => { type $T = S6; let $V = Store::S6 as fn(S6) -> Store; $e } 8 => { type $T = G9; let $V = Store::G9 as fn(G9) -> Store; $e }
+    0 => { type $T = I32; let $V = Store::I32 as fn(I32) -> Store; $e } 1 => { type $T = I16; let $V = Store::I16 as fn(I16) -> Store; $e }
+    2 => { type $T = FG; let $V = Store::FG as fn(FG) -> Store; $e } 3 => { type $T = LG; let $V = Store::LG as fn(LG) -> Store; $e }
+    4 => { type $T = FD; let $V = Store::FD as fn(FD) -> Store; $e } 5 => { type $T = LD; let $V = Store::LD as fn(LD) -> Store; $e }
+    6 => { type $T = SFG; let $V = Store::SFG as fn(SFG) -> Store; $e } 9 => { type $T = IUS; let $V = Store::IUS as fn(IUS) -> Store; $e }
+    10 => { type $T = LGU; let $V = Store::LGU as fn(LGU) -> Store; $e } 11 => { type $T = FDU; let $V = Store::FDU as fn(FDU) -> Store; $e }
+    12 => { type $T = SLG; let $V = Store::SLG as fn(SLG) -> Store; $e } 13 => { type $T = SFD; let $V = Store::SFD as fn(SFD) -> Store; $e }
+    14 => { type $T = SLD; let $V = Store::SLD as fn(SLD) -> Store; $e } 15 => { type $T = LG9; let $V = Store::LG9 as fn(LG9) -> Store; $e }
+    16 => { type $T = LD9; let $V = Store::LD9 as fn(LD9) -> Store; $e } _ => { type $T = FD9; let $V = Store::FD9 as fn(FD9) -> Store; $e } } } }
+fn fam_of(k: usize) -> u8 { match k { 0 | 1 | 7 | 9 => 0, 2 | 3 | 6 | 8 | 10 | 12 | 15 => 1, _ => 2 } }
+fn out_of_range<I: Index + Default + Send + 'static>(ti: &Ti<I>) -> Vec<String> {
+    let mut idx: Vec<(String, I)> = vec![];
+    for (name, v) in [("len", ti.len()), ("len+1", ti.len() + 1)] {
+        QUIET.with(|q| q.set(true)); let r = std::panic::catch_unwind(|| I::from_usize(v)); QUIET.with(|q| q.set(false));
+        if let Ok(i) = r { idx.push((name.into(), i)); }
+    }
+    idx.push(("MAX".into(), I::MAX));
+    let mut bad = vec![];
+    for (name, i) in idx { QUIET.with(|q| q.set(true)); let r = std::panic::catch_unwind(std::panic::AssertUnwindSafe(|| { let t: ST = ti.get_term(i).into_term(); format!("{t:?}") })); QUIET.with(|q| q.set(false)); if let Ok(t) = r { bad.push(format!("get_term({name}) returned {} instead of panicking", t.chars().take(60).collect::<String>())); } }
+    bad
+}
 impl Store {
-    fn kind(&self) -> &'static str { match self { Store::S6(_) => "SimpleTermIndex<SmallIdx<6>>", Store::G9(_) => "GenericFastGraph<SimpleTermIndex<SmallIdx<9>>>", Store::I32(_) => "SimpleTermIndex<u32>", Store::I16(_) => "SimpleTermIndex<u16>", Store::FG(_) => "FastGraph", Store::LG(_) => "LightGraph", Store::FD(_) => "FastDataset", Store::LD(_) => "LightDataset", Store::SFG(_) => "small::FastGraph" } }
-    fn clone_it(&self) -> Store { match self { Store::S6(x) => Store::S6(x.clone()), Store::G9(x) => Store::G9(x.clone()), Store::I32(x) => Store::I32(x.clone()), Store::I16(x) => Store::I16(x.clone()), Store::FG(x) => Store::FG(x.clone()), Store::LG(x) => Store::LG(x.clone()), Store::FD(x) => Store::FD(x.clone()), Store::LD(x) => Store::LD(x.clone()), Store::SFG(x) => Store::SFG(x.clone()) } }
+    fn kind(&self) -> &'static str { match self { Store::S6(_) => "SimpleTermIndex<SmallIdx<6>>", Store::G9(_) => "GenericFastGraph<SimpleTermIndex<SmallIdx<9>>>", Store::I32(_) => "SimpleTermIndex<u32>", Store::I16(_) => "SimpleTermIndex<u16>", Store::FG(_) => "FastGraph", Store::LG(_) => "LightGraph", Store::FD(_) => "FastDataset", Store::LD(_) => "LightDataset", Store::SFG(_) => "small::FastGraph",
+        Store::IUS(_) => "SimpleTermIndex<usize>", Store::LGU(_) => "GenericLightGraph<SimpleTermIndex<usize>>", Store::FDU(_) => "GenericFastDataset<SimpleTermIndex<usize>>", Store::SLG(_) => "small::LightGraph", Store::SFD(_) => "small::FastDataset", Store::SLD(_) => "small::LightDataset",
+        Store::LG9(_) => "GenericLightGraph<SimpleTermIndex<SmallIdx<9>>>", Store::LD9(_) => "GenericLightDataset<SimpleTermIndex<SmallIdx<9>>>", Store::FD9(_) => "GenericFastDataset<SimpleTermIndex<SmallIdx<9>>>" } }
+    fn knum(&self) -> usize { match self { Store::S6(_) => 7, Store::G9(_) => 8, Store::I32(_) => 0, Store::I16(_) => 1, Store::FG(_) => 2, Store::LG(_) => 3, Store::FD(_) => 4, Store::LD(_) => 5, Store::SFG(_) => 6, Store::IUS(_) => 9, Store::LGU(_) => 10, Store::FDU(_) => 11, Store::SLG(_) => 12, Store::SFD(_) => 13, Store::SLD(_) => 14, Store::LG9(_) => 15, Store::LD9(_) => 16, Store::FD9(_) => 17 } }
+    fn fam(&self) -> u8 { fam_of(self.knum()) }
+    /// u16-indexed: the histories never fill them (as before the widening)
+    fn is_u16(&self) -> bool { matches!(self.knum(), 1 | 6 | 12 | 13 | 14) }
+    fn mk(k: usize, how: usize) -> Store { by_kind!(k; T, v => v(<T as St>::mk(how))) }
     /// Clone::clone_from (a provided method of Clone that a type may override); false if the two stores are of different types
     fn clone_from_it(&mut self, src: &Store) -> bool { match (self, src) {
         (Store::S6(a), Store::S6(b)) => { a.clone_from(b); true } (Store::G9(a), Store::G9(b)) => { a.clone_from(b); true } (Store::I32(a), Store::I32(b)) => { a.clone_from(b); true } (Store::I16(a), Store::I16(b)) => { a.clone_from(b); true }
         (Store::FG(a), Store::FG(b)) => { a.clone_from(b); true } (Store::LG(a), Store::LG(b)) => { a.clone_from(b); true } (Store::FD(a), Store::FD(b)) => { a.clone_from(b); true } (Store::LD(a), Store::LD(b)) => { a.clone_from(b); true } (Store::SFG(a), Store::SFG(b)) => { a.clone_from(b); true }
+        (Store::IUS(a), Store::IUS(b)) => { a.clone_from(b); true } (Store::LGU(a), Store::LGU(b)) => { a.clone_from(b); true } (Store::FDU(a), Store::FDU(b)) => { a.clone_from(b); true } (Store::SLG(a), Store::SLG(b)) => { a.clone_from(b); true } (Store::SFD(a), Store::SFD(b)) => { a.clone_from(b); true } (Store::SLD(a), Store::SLD(b)) => { a.clone_from(b); true }
+        (Store::LG9(a), Store::LG9(b)) => { a.clone_from(b); true } (Store::LD9(a), Store::LD9(b)) => { a.clone_from(b); true } (Store::FD9(a), Store::FD9(b)) => { a.clone_from(b); true }
         _ => false } }
-    fn shapes(&self) -> Option<String> { match self { Store::G9(x) => graph_shapes(x), Store::FG(x) => graph_shapes(x), Store::LG(x) => graph_shapes(x), Store::SFG(x) => graph_shapes(x), Store::FD(x) => dataset_shapes(x), Store::LD(x) => dataset_shapes(x), _ => None } }
-    fn audit(&self) -> Vec<bool> { match self { Store::S6(x) => x.verif_audit(), Store::G9(x) => x.verif_term_index().verif_audit(), Store::I32(x) => x.verif_audit(), Store::I16(x) => x.verif_audit(), Store::FG(x) => x.verif_term_index().verif_audit(), Store::LG(x) => x.verif_term_index().verif_audit(), Store::FD(x) => x.verif_term_index().verif_audit(), Store::LD(x) => x.verif_term_index().verif_audit(), Store::SFG(x) => x.verif_term_index().verif_audit() } }
-    fn len(&self) -> usize { match self { Store::S6(x) => x.len(), Store::G9(x) => x.verif_term_index().len(), Store::I32(x) => x.len(), Store::I16(x) => x.len(), Store::FG(x) => x.verif_term_index().len(), Store::LG(x) => x.verif_term_index().len(), Store::FD(x) => x.verif_term_index().len(), Store::LD(x) => x.verif_term_index().len(), Store::SFG(x) => x.verif_term_index().len() } }
-    fn term_at(&self, i: usize) -> ST { match self { Store::S6(x) => x.get_term(SmallIdx(i as u8)).into_term(), Store::G9(x) => x.verif_term_index().get_term(SmallIdx(i as u8)).into_term(), Store::I32(x) => x.get_term(i as u32).into_term(), Store::I16(x) => x.get_term(i as u16).into_term(), Store::FG(x) => x.verif_term_index().get_term(i as u32).into_term(), Store::LG(x) => x.verif_term_index().get_term(i as u32).into_term(), Store::FD(x) => x.verif_term_index().get_term(i as u32).into_term(), Store::LD(x) => x.verif_term_index().get_term(i as u32).into_term(), Store::SFG(x) => x.verif_term_index().get_term(i as u16).into_term() } }
-    /// insert the statement made of `ts` (3 terms, + graph name for datasets); index stores intern each term
+    fn shapes(&self, absent: &ST) -> Option<String> { each!(self; x => x.shapes(absent)) }
+    fn audit(&self) -> Vec<bool> { each!(self; x => x.ti().verif_audit()) }
+    fn len(&self) -> usize { each!(self; x => x.ti().len()) }
+    fn is_empty(&self) -> bool { each!(self; x => x.ti().is_empty()) }
+    fn term_at(&self, i: usize) -> &IT { each!(self; x => x.ti().get_term(Index::from_usize(i))) }
     /// (address, length, owned?) of every string of the keys and of the index table
-    fn strings(&self) -> (Vec<(usize, usize, bool)>, Vec<(usize, usize, bool)>) { match self { Store::S6(x) => x.verif_strings(), Store::G9(x) => x.verif_term_index().verif_strings(), Store::I32(x) => x.verif_strings(), Store::I16(x) => x.verif_strings(), Store::FG(x) => x.verif_term_index().verif_strings(), Store::LG(x) => x.verif_term_index().verif_strings(), Store::FD(x) => x.verif_term_index().verif_strings(), Store::LD(x) => x.verif_term_index().verif_strings(), Store::SFG(x) => x.verif_term_index().verif_strings() } }
+    fn strings(&self) -> (Vec<(usize, usize, bool)>, Vec<(usize, usize, bool)>) { each!(self; x => x.ti().verif_strings()) }
     /// get_term on an index that was never handed out (len, len+1, MAX): a safe public method, it must panic, not read out of bounds
-    fn out_of_range_reads(&self) -> Vec<String> {
-        fn probe<TI: TermIndex>(ti: &TI, idx: Vec<(String, TI::Index)>) -> Vec<String> where TI::Index: Copy {
-            let mut bad = vec![];
-            for (name, i) in idx { QUIET.with(|q| q.set(true)); let r = std::panic::catch_unwind(std::panic::AssertUnwindSafe(|| { let t: ST = ti.get_term(i).into_term(); format!("{t:?}") })); QUIET.with(|q| q.set(false)); if let Ok(t) = r { bad.push(format!("get_term({name}) returned {} instead of panicking", t.chars().take(60).collect::<String>())); } }
-            bad
-        }
-        match self {
-            Store::S6(x) => probe(x, vec![("len".into(), SmallIdx(x.len() as u8)), ("MAX".into(), SmallIdx(6))]),
-            Store::G9(x) => { let ti = x.verif_term_index(); probe(ti, vec![("len".into(), SmallIdx(ti.len() as u8)), ("MAX".into(), SmallIdx(9))]) }
-            Store::I32(x) => probe(x, vec![("len".into(), x.len() as u32), ("len+1".into(), x.len() as u32 + 1), ("MAX".into(), u32::MAX)]),
-            Store::I16(x) => probe(x, vec![("len".into(), x.len() as u16), ("MAX".into(), u16::MAX)]),
-            Store::FG(x) => { let ti = x.verif_term_index(); probe(ti, vec![("len".into(), ti.len() as u32), ("MAX".into(), u32::MAX)]) }
-            Store::LG(x) => { let ti = x.verif_term_index(); probe(ti, vec![("len".into(), ti.len() as u32), ("MAX".into(), u32::MAX)]) }
-            Store::FD(x) => { let ti = x.verif_term_index(); probe(ti, vec![("len".into(), ti.len() as u32), ("MAX".into(), u32::MAX)]) }
-            Store::LD(x) => { let ti = x.verif_term_index(); probe(ti, vec![("len".into(), ti.len() as u32), ("MAX".into(), u32::MAX)]) }
-            Store::SFG(x) => { let ti = x.verif_term_index(); probe(ti, vec![("len".into(), ti.len() as u16), ("MAX".into(), u16::MAX)]) }
-        }
+    fn out_of_range_reads(&self) -> Vec<String> { each!(self; x => out_of_range(x.ti())) }
+    fn as_src(&self) -> &dyn Src { each!(self; x => x as &dyn Src) }
+    /// insert the statement made of `ts` (3 terms + graph name; bare indexes intern each term); via 1: through OwnT
+    fn insert(&mut self, ts: [&ST; 3], g: Option<&ST>, via: usize) -> Result<Option<bool>, ()> {
+        if via == 1 { each!(self; x => x.ins([OwnT(ts[0]), OwnT(ts[1]), OwnT(ts[2])], g.map(OwnT))) } else { each!(self; x => x.ins(ts, g)) }
     }
-    fn insert(&mut self, ts: &[ST]) -> usize { match self {
-        // capacity-limited stores: TermIndexFullError is an ordinary outcome; the terms interned before it stay interned
-        Store::S6(x) => { let mut n = 0; for t in ts { if x.ensure_index(t.borrow_term()).is_err() { break; } n += 1; } n }
-        Store::G9(x) => { let before = x.verif_term_index().len(); match x.insert(&ts[0], &ts[1], &ts[2]) { Ok(_) => 3, Err(_) => {
-            // the first (len_after - len_before) NEW terms of s, p, o were interned
-            let mut newly = x.verif_term_index().len() - before; let mut n = 0; let mut seen: Vec<&ST> = vec![];
-            for t in &ts[..3] { let known = (0..before).any(|k| Term::eq(&x.verif_term_index().get_term(SmallIdx(k as u8)), t.borrow_term())) || seen.iter().any(|u| Term::eq(*u, t.borrow_term())); if !known { if newly == 0 { break; } newly -= 1; seen.push(t); } n += 1; }
-            n } } }
-        Store::I32(x) => { for t in ts { x.ensure_index(t.borrow_term()).unwrap(); } ts.len() }
-        Store::I16(x) => { for t in ts { x.ensure_index(t.borrow_term()).unwrap(); } ts.len() }
-        Store::FG(x) => { x.insert(&ts[0], &ts[1], &ts[2]).unwrap(); 3 } Store::LG(x) => { x.insert(&ts[0], &ts[1], &ts[2]).unwrap(); 3 } Store::SFG(x) => { x.insert(&ts[0], &ts[1], &ts[2]).unwrap(); 3 }
-        Store::FD(x) => { x.insert(&ts[0], &ts[1], &ts[2], Some(&ts[3])).unwrap(); 4 } Store::LD(x) => { x.insert(&ts[0], &ts[1], &ts[2], Some(&ts[3])).unwrap(); 4 }
-    } }
-    fn remove(&mut self, ts: &[ST]) { match self {
-        Store::FG(x) => { x.remove(&ts[0], &ts[1], &ts[2]).unwrap(); } Store::LG(x) => { x.remove(&ts[0], &ts[1], &ts[2]).unwrap(); } Store::SFG(x) => { x.remove(&ts[0], &ts[1], &ts[2]).unwrap(); }
-        Store::G9(x) => { x.remove(&ts[0], &ts[1], &ts[2]).unwrap(); }
-        Store::FD(x) => { x.remove(&ts[0], &ts[1], &ts[2], Some(&ts[3])).unwrap(); } Store::LD(x) => { x.remove(&ts[0], &ts[1], &ts[2], Some(&ts[3])).unwrap(); } _ => {}
-    } }
+    fn remove(&mut self, ts: [&ST; 3], g: Option<&ST>) -> Option<bool> { each!(self; x => x.rem(ts, g)) }
+    /// std::mem::take on the concrete store: its content moves out, a Default store of the same type stays
+    fn take(&mut self) -> Store { wrap!(self; x => std::mem::take(x)) }
+    fn collect(src: &Store, dk: usize, how: usize) -> Result<Store, ()> { let s = src.as_src(); by_kind!(dk; T, v => <T as St>::collect_from(s, how).map(v)) }
+    fn extend(&mut self, src: &Store) -> Result<(), ()> { let s = src.as_src(); each!(self; x => x.extend_from(s)) }
+    /// all statements in iteration order (graph name last; None = default graph)
+    fn stmts(&self) -> Vec<([&IT; 3], Option<&IT>)> { let s = self.as_src(); match s.fam() { 1 => s.triples_dyn().map(|t| (t.ok().unwrap(), None)).collect(), 2 => s.quads_dyn().map(|q| { let (g, t) = q.ok().unwrap(); (t, g) }).collect(), _ => vec![] } }
 }
+impl Clone for Store {
+    fn clone(&self) -> Store { wrap!(self; x => x.clone()) }
+    fn clone_from(&mut self, src: &Store) { if !self.clone_from_it(src) { *self = src.clone(); } }
+}
+/// where a slot keeps its store: inline, or inside a Box / Rc / Arc / Vec (moving the holder then moves a pointer only)
+enum Held { Plain(Store), Boxed(Box<Store>), Rc(Rc<Store>), Arc(Arc<Store>), Vec1(Vec<Store>) }
+impl Held {
+    fn wrap(st: Store, k: usize) -> Held { match k { 0 => Held::Plain(st), 1 => Held::Boxed(Box::new(st)), 2 => Held::Rc(Rc::new(st)), 3 => Held::Arc(Arc::new(st)), _ => { let mut v = Vec::new(); v.push(st); Held::Vec1(v) } } }
+    fn get(&self) -> &Store { match self { Held::Plain(s) => s, Held::Boxed(b) => b, Held::Rc(r) => r, Held::Arc(a) => a, Held::Vec1(v) => &v[0] } }
+    /// Rc/Arc: make_mut on a uniquely held store must not clone it
+    fn get_mut(&mut self) -> &mut Store { match self { Held::Plain(s) => s, Held::Boxed(b) => b, Held::Rc(r) => Rc::make_mut(r), Held::Arc(a) => Arc::make_mut(a), Held::Vec1(v) => &mut v[0] } }
+    fn unwrap(self) -> Store { match self { Held::Plain(s) => s, Held::Boxed(b) => *b, Held::Rc(r) => Rc::try_unwrap(r).ok().unwrap(), Held::Arc(a) => Arc::try_unwrap(a).ok().unwrap(), Held::Vec1(mut v) => v.pop().unwrap() } }
+}
+/// one clone of the store held by `h`, made in the `via`-th way; returns the holder of the original (possibly another
+/// container now), the clone, and how many EXTRA clones were made and dropped on the way; via 15 = clone of a clone
+fn clone_via(h: Held, via: usize) -> (Held, Store, usize) {
+    match via {
+        1 => { let b = Box::new(h.unwrap()); let b2 = b.clone(); (Held::Boxed(b), *b2, 0) }
+        2 => { let rc = Rc::new(h.unwrap()); let mut rc2 = Rc::clone(&rc); let _ = Rc::make_mut(&mut rc2); let c = Rc::try_unwrap(rc2).ok().unwrap(); (Held::Rc(rc), c, 0) }
+        3 => { let a = Arc::new(h.unwrap()); let mut a2 = Arc::clone(&a); let _ = Arc::make_mut(&mut a2); let c = Arc::try_unwrap(a2).ok().unwrap(); (Held::Arc(a), c, 0) }
+        4 => { let rc = Rc::new(h.unwrap()); let rc2 = Rc::clone(&rc); let c = Rc::unwrap_or_clone(rc2); (Held::Rc(rc), c, 0) }
+        5 => { let v = vec![h.unwrap()]; let mut v2 = v.clone(); let c = v2.pop().unwrap(); (Held::Vec1(v), c, 0) }
+        6 => { let v = vec![h.unwrap()]; let mut v2 = v[..].to_vec(); let c = v2.pop().unwrap(); (Held::Vec1(v), c, 0) }
+        7 => { let v = vec![h.unwrap()]; let mut v2: Vec<Store> = Vec::new(); v2.extend_from_slice(&v); let c = v2.pop().unwrap(); (Held::Vec1(v), c, 0) }
+        8 => { let v = vec![h.unwrap()]; let mut v2: Vec<Store> = v.iter().cloned().collect(); let c = v2.pop().unwrap(); (Held::Vec1(v), c, 0) }
+        9 => { let mut v2 = vec![h.get().clone(); 3]; let c = v2.swap_remove(0); drop(v2); (h, c, 2) }
+        10 => { let mut v2: Vec<Store> = Vec::new(); v2.resize(3, h.get().clone()); let c = v2.remove(1); v2.clear(); (h, c, 2) }
+        11 => { let c = Some(h.get()).cloned().unwrap(); (h, c, 0) }
+        12 => { let c = Cow::Borrowed(h.get()).into_owned(); (h, c, 0) }
+        13 => { let c = h.get().to_owned(); (h, c, 0) }
+        14 => { let a = [h.get().clone()]; let [c] = a.clone(); drop(a); (h, c, 1) }
+        15 => { let c = h.get().clone(); let d = c.clone(); drop(c); (h, d, 0) }
+        16 => { let mut c = Store::mk(h.get().knum(), 1); c.clone_from(h.get()); (h, c, 0) }
+        17 => { let t = (h.get().clone(), 7u8); let c = t.clone().0; drop(t); (h, c, 1) }
+        _ => { let c = h.get().clone(); (h, c, 0) }
+    }
+}
+const NVIA: usize = 18;
+
 enum TMx { K(ST), A }
 impl sophia_api::term::matcher::TermMatcher for TMx {
     type Term = ST;
@@ -78,24 +276,38 @@ impl sophia_api::term::matcher::GraphNameMatcher for GMx {
     fn constant(&self) -> Option<GraphName<&ST>> { if let GMx::K(k) = self { Some(k.as_ref()) } else { None } }
 }
 /// every pattern shape (which positions are constants) must return exactly the statements of the store that match it:
-/// a copy of a store that forgot one of its secondary indexes answers some shapes wrongly
-fn graph_shapes<G: Graph>(g: &G) -> Option<String> {
+/// a copy of a store that forgot one of its secondary indexes answers some shapes wrongly.  Probes: the first three
+/// statements, the first one with each position replaced by a term the store never saw, and a recombination of two
+/// statements (all terms known, statement most often absent); the last two kinds on stores of up to 48 statements.
+/// the additional probes (absent terms, recombinations) are run on stores of at most this many statements (cost)
+const EXTRA_PROBES_UP_TO: usize = 48;
+fn graph_shapes<G: Graph>(g: &G, absent: &ST) -> Option<String> {
     let all: Vec<[ST; 3]> = g.triples().map(|t| { let t = t.ok().unwrap(); [t.s().into_term(), t.p().into_term(), t.o().into_term()] }).collect();
-    for probe in all.iter().take(3) { for mask in 0..8u8 {
+    let mut probes: Vec<[ST; 3]> = all.iter().take(3).cloned().collect();
+    if let Some(f) = all.first().filter(|_| all.len() <= EXTRA_PROBES_UP_TO) { for j in 0..3 { let mut p = f.clone(); p[j] = absent.clone(); probes.push(p); } let l = all.last().unwrap(); probes.push([f[0].clone(), f[1].clone(), l[0].clone()]); probes.push([l[0].clone(), f[1].clone(), f[2].clone()]); }
+    for probe in probes.iter() {
+        // per statement: at which positions it carries the probe's term (then `want` for a mask = statements whose positions include the mask)
+        let eqm: Vec<u8> = all.iter().map(|t| (0..3).fold(0u8, |a, i| a | (u8::from(Term::eq(&t[i], probe[i].borrow_term())) << i))).collect();
+        for mask in 0..8u8 {
         let m = |i: usize| if mask >> i & 1 == 1 { TMx::K(probe[i].clone()) } else { TMx::A };
         let got = g.triples_matching(m(0), m(1), m(2)).count();
-        let want = all.iter().filter(|t| (0..3).all(|i| mask >> i & 1 == 0 || Term::eq(&t[i], probe[i].borrow_term()))).count();
+        let want = eqm.iter().filter(|e| **e & mask == mask).count();
         if got != want { return Some(format!("pattern with constants at positions {mask:03b} (spo) of {probe:?} returns {got} triples, the store holds {want} matching ones")); }
     } }
     None
 }
-fn dataset_shapes<D: Dataset>(d: &D) -> Option<String> {
+fn dataset_shapes<D: Dataset>(d: &D, absent: &ST) -> Option<String> {
     let all: Vec<([ST; 3], Option<ST>)> = d.quads().map(|q| { let q = q.ok().unwrap(); ([q.s().into_term(), q.p().into_term(), q.o().into_term()], q.g().map(|g| g.into_term())) }).collect();
-    for probe in all.iter().take(3) { for mask in 0..16u8 {
+    let mut probes: Vec<([ST; 3], Option<ST>)> = all.iter().take(3).cloned().collect();
+    if let Some(f) = all.first().filter(|_| all.len() <= EXTRA_PROBES_UP_TO) { for j in 0..4 { let mut p = f.clone(); if j < 3 { p.0[j] = absent.clone(); } else { p.1 = Some(absent.clone()); } probes.push(p); }
+        let l = all.last().unwrap(); probes.push(([f.0[0].clone(), f.0[1].clone(), l.0[0].clone()], f.1.clone())); probes.push((f.0.clone(), l.1.clone())); probes.push((l.0.clone(), None)); }
+    for probe in probes.iter() {
+        let eqm: Vec<u8> = all.iter().map(|q| (0..3).fold(0u8, |a, i| a | (u8::from(Term::eq(&q.0[i], probe.0[i].borrow_term())) << i)) | (u8::from(sophia_api::term::graph_name_eq(q.1.as_ref().map(|t| t.borrow_term()), probe.1.as_ref().map(|t| t.borrow_term()))) << 3)).collect();
+        for mask in 0..16u8 {
         let m = |i: usize| if mask >> i & 1 == 1 { TMx::K(probe.0[i].clone()) } else { TMx::A };
         let gm = if mask >> 3 & 1 == 1 { GMx::K(probe.1.clone()) } else { GMx::A };
         let got = d.quads_matching(m(0), m(1), m(2), gm).count();
-        let want = all.iter().filter(|q| (0..3).all(|i| mask >> i & 1 == 0 || Term::eq(&q.0[i], probe.0[i].borrow_term())) && (mask >> 3 & 1 == 0 || sophia_api::term::graph_name_eq(q.1.as_ref().map(|t| t.borrow_term()), probe.1.as_ref().map(|t| t.borrow_term())))).count();
+        let want = eqm.iter().filter(|e| **e & mask == mask).count();
         if got != want { return Some(format!("pattern with constants at positions {mask:04b} (gops, s lowest bit) of {probe:?} returns {got} quads, the store holds {want} matching ones")); }
     } }
     None
@@ -146,26 +358,270 @@ fn inline_term_scenarios() -> Vec<String> {
     go::<std::collections::HashSet<[ST; 3]>>("HashSet<[SimpleTerm;3]>", &qt_s, qt_i, p_i, o_i, b_i, &mut bad);
     bad
 }
-fn new_store(k: usize) -> Store { match k { 7 => Store::S6(Default::default()), 8 => Store::G9(Default::default()), 0 => Store::I32(Default::default()), 1 => Store::I16(Default::default()), 2 => Store::FG(Default::default()), 3 => Store::LG(Default::default()), 4 => Store::FD(Default::default()), 5 => Store::LD(Default::default()), _ => Store::SFG(Default::default()) } }
+/// statements given through a term type whose accessors return OWNED strings, and through native literals (whose
+/// lexical forms are computed, hence owned): the store must keep its own copy, also after the temporary is gone,
+/// and a clone taken meanwhile must be independent
+fn owned_accessor_scenarios() -> Vec<String> {
+    let mut bad = vec![];
+    fn go<G: MutableGraph + Graph + Default + Clone>(name: &str, bad: &mut Vec<String>) where G::MutationError: std::fmt::Debug {
+        let mut g = G::default();
+        { let s = iri("http://e/owned/subject"); let o = lit_lang("chat", "fr-BE"); let q = triple(bnode("b"), iri("http://e/p"), lit_dt("1", &format!("{XSD}integer")));
+          g.insert(OwnT(&s), OwnT(&s), OwnT(&o)).unwrap(); g.insert(OwnT(&q), OwnT(&s), 42i32).unwrap(); g.insert(OwnT(&s), OwnT(&s), 1.5f64).unwrap(); g.insert(OwnT(&s), OwnT(&s), true).unwrap(); g.insert(OwnT(&s), OwnT(&s), "native str").unwrap(); }
+        let c = g.clone();
+        for k in 0..40 { g.insert(k as i32, iri("http://e/p"), format!("filler {k}").as_str()).unwrap(); }
+        drop(g);
+        let junk: Vec<String> = (0..32).map(|k| format!("http://e/owned/subjecT{k}")).collect(); std::hint::black_box(&junk);
+        let s = iri("http://e/owned/subject"); let q = triple(bnode("b"), iri("http://e/p"), lit_dt("1", &format!("{XSD}integer")));
+        let want: Vec<ST> = vec![lit_lang("chat", "fr-BE"), lit_dt("1.5", &format!("{XSD}double")), lit_dt("true", &format!("{XSD}boolean")), lit_dt("native str", &format!("{XSD}string"))];
+        for w in &want { if !c.contains(&s, &s, w).unwrap_or(false) { bad.push(format!("{name}: a clone (original grown, then dropped) of a store filled through owned-string accessors / native literals no longer contains <subject> <subject> {w:?}")); } }
+        if !c.contains(&q, &s, lit_dt("42", &format!("{XSD}integer"))).unwrap_or(false) { bad.push(format!("{name}: the clone no longer contains the statement whose subject is a quoted triple given through owned-string accessors")); }
+        if c.triples().count() != 5 { bad.push(format!("{name}: the clone holds {} statements, expected 5", c.triples().count())); }
+    }
+    go::<FastGraph>("FastGraph", &mut bad); go::<LightGraph>("LightGraph", &mut bad); go::<SFG>("small::FastGraph", &mut bad); go::<LGU>("GenericLightGraph<SimpleTermIndex<usize>>", &mut bad);
+    bad
+}
+
+/// static-clone: regression scenario for a use-after-free found by the widened histories.  The terms handed out by a
+/// store (`TermIndex::get_term`, the items of `triples()` / `quads()`) borrow their text from the keys of the store's
+/// term index.  Whatever a caller can obtain from a store with safe calls and KEEP after dropping the store (a value
+/// of a `'static` type) must own its text: `Clone::clone` of a handed-out term (an owned `SimpleTerm<'static>` whose
+/// strings were the store's: the defect), `into_term`, `SimpleTerm::from_term`, `try_from_term`, `as_simple` then
+/// `into_term`, `to_triple` of an owned copy of a quoted triple, Arc/Rc terms, stash copies, the statements
+/// collected into other containers and stores, the same from a CLONE of the store.  Checked from the addresses
+/// (`verif_strings`) while the store is alive; then the store is dropped, the heap churned, and every kept value read.
+fn static_clone_scenarios() -> Vec<String> {
+    fn assert_static<T: 'static>(_: &T) {}
+    fn ranges<T: Term>(t: T, out: &mut Vec<(usize, usize)>) {
+        if let Some([s, p, o]) = t.triple() { ranges(s, out); ranges(p, out); ranges(o, out); return; }
+        if let Some(x) = t.iri() { out.push((x.as_str().as_ptr() as usize, x.len())); }
+        if let Some(x) = t.bnode_id() { out.push((x.as_str().as_ptr() as usize, x.len())); }
+        if let Some(x) = t.lexical_form() { out.push((x.as_ptr() as usize, x.len())); }
+        if let Some(x) = t.language_tag() { out.push((x.as_str().as_ptr() as usize, x.len())); }
+        if let Some(x) = t.variable() { out.push((x.as_str().as_ptr() as usize, x.len())); }
+        if let Some(x) = t.datatype() { out.push((x.as_str().as_ptr() as usize, x.len())); }
+    }
+    fn inside<T: Term + Copy>(kept: &[T], keys: &[(usize, usize, bool)]) -> usize { let mut r = vec![]; for t in kept { ranges(*t, &mut r); } r.iter().filter(|(p, l)| *l > 0 && keys.iter().any(|k| k.1 > 0 && *p < k.0 + k.1 && k.0 < p + l)).count() }
+    fn both(x: (Vec<(usize, usize, bool)>, Vec<(usize, usize, bool)>)) -> Vec<(usize, usize, bool)> { let (mut k, e) = x; k.extend(e); k }
+    /// is the value an owned one (not a reference, whose life the compiler bounds by the store's)?
+    fn owned_value<T>(v: &T) -> bool { !std::any::type_name_of_val(v).starts_with('&') }
+    let mut bad = vec![];
+    let qt = triple(bnode("b0"), iri("http://e/static/p"), lit_dt("12", &format!("{XSD}integer")));
+    let stmts: Vec<[ST; 4]> = vec![[iri("http://e/static/subject"), iri("http://e/static/p"), lit_lang("chat", "fr"), iri("http://e/static/g")], [qt.clone(), iri("http://e/static/p"), lit_dt("plain", &format!("{XSD}string")), iri("http://e/static/g")], [iri("http://e/static/subject"), iri("http://e/static/q"), qt.clone(), iri("http://e/static/subject")]];
+    // everything a caller may keep of one handed-out term
+    fn keep<T: Term + Copy>(t: T, kept: &mut Vec<ST>, arcs: &mut Vec<sophia_term::ArcTerm>, rcs: &mut Vec<sophia_term::RcTerm>, stash: &mut sophia_term::ArcStrStash) {
+        let a: ST = t.into_term(); let b = <ST as sophia_api::term::FromTerm>::from_term(t); let c: ST = t.try_into_term().unwrap(); let d: ST = t.as_simple().into_term();
+        if let Some(tr) = a.clone().to_triple() { kept.extend(tr); }
+        kept.extend([a, b, c, d]); arcs.push(t.into_term()); arcs.push(stash.copy_term(t)); rcs.push(t.into_term());
+    }
+    fn ti_fg(g: &FastGraph) -> &I32 { g.verif_term_index() }
+    fn ti_ld(d: &LD) -> &I32 { d.verif_term_index() }
+    fn ti_ix(ix: &I32) -> &I32 { ix }
+    fn items_fg(g: &FastGraph) -> Vec<&IT> { g.triples().flat_map(|t| t.unwrap()).collect() }
+    fn items_ld(d: &LD) -> Vec<&IT> { d.quads().flat_map(|q| { let (g, t) = q.unwrap(); t.into_iter().chain(g) }).collect() }
+    fn items_ix(ix: &I32) -> Vec<&IT> { (0..ix.len()).map(|i| ix.get_term(i as u32)).collect() }
+    macro_rules! run { ($name:expr, $store:expr, $ti:expr, $items:expr, $others:expr) => {{
+        let store = $store; let ti = $ti; let items = $items; let others = $others;
+        let (mut kept, mut arcs, mut rcs, mut stash) = (vec![], vec![], vec![], sophia_term::ArcStrStash::new());
+        let mut cloned_in = 0; let mut n_items = 0; let mut clones: Vec<ST> = vec![];
+        for t in items(&store) { n_items += 1;
+            // the defect: Clone::clone of a handed-out term must not be an owned value holding the store's strings
+            let c = t.clone(); if owned_value(&c) && inside(&[c.borrow_term()], &both(ti(&store).verif_strings())) > 0 { cloned_in += 1; } clones.push(c);
+            keep(t, &mut kept, &mut arcs, &mut rcs, &mut stash); }
+        assert_static(&kept); assert_static(&arcs); assert_static(&rcs);
+        let keys = both(ti(&store).verif_strings()); assert_static(&clones);
+        if cloned_in > 0 { bad.push(format!("static-clone: {}: Clone::clone of {cloned_in} of the {n_items} terms handed out by the store is an owned value whose strings lie in the store's own storage (keys / index table): safe code can keep it after drop(store) and then reads released memory", $name)); }
+        let n = inside(&kept.iter().collect::<Vec<_>>(), &keys) + inside(&arcs.iter().collect::<Vec<_>>(), &keys) + inside(&rcs.iter().collect::<Vec<_>>(), &keys);
+        if n > 0 { bad.push(format!("static-clone: {}: {n} strings of the owned copies (into_term / from_term / try_into_term / as_simple+into_term / to_triple / ArcTerm / RcTerm / stash) of the terms handed out by the store lie in the store's own storage", $name)); }
+        // collected into other containers and stores; and the same from a clone of the store, the original dropped first
+        let (other_terms, other_keys): (Vec<ST>, Vec<(usize, usize, bool)>) = others(&store);
+        let n = inside(&other_terms.iter().collect::<Vec<_>>(), &keys) + other_keys.iter().filter(|o| o.1 > 0 && keys.iter().any(|k| k.1 > 0 && o.0 < k.0 + k.1 && k.0 < o.0 + o.1)).count();
+        if n > 0 { bad.push(format!("static-clone: {}: {n} strings of containers / stores collected from the store lie in the store's key storage", $name)); }
+        let clone = store.clone(); drop(store);
+        let junk: Vec<String> = (0..64).map(|k| format!("http://e/static/subjecT{k}")).collect(); std::hint::black_box(&junk);
+        let mut kept2 = vec![]; for t in items(&clone) { keep(t, &mut kept2, &mut arcs, &mut rcs, &mut stash); }
+        let n2 = inside(&kept2.iter().collect::<Vec<_>>(), &both(ti(&clone).verif_strings()));
+        if n2 > 0 { bad.push(format!("static-clone: {}: {n2} strings of the owned copies of the terms handed out by a CLONE of the store lie in the clone's key storage", $name)); }
+        drop(clone); let junk2: Vec<String> = (0..64).map(|k| format!("http://e/static/subJect{k}")).collect(); std::hint::black_box(&junk2);
+        // after both are gone: every kept value still reads as the term it was copied from
+        let expect = |t: &dyn Fn(&ST) -> bool| stmts.iter().flatten().any(|e| t(e)) ;
+        let all_ok = kept.iter().chain(kept2.iter()).chain(other_terms.iter()).all(|k| expect(&|e: &ST| same_term(k, e)) || qt.triple().is_some_and(|tr| tr.iter().any(|e| same_term(k, *e))))
+            && arcs.iter().all(|k| expect(&|e: &ST| Term::eq(k, e))) && rcs.iter().all(|k| expect(&|e: &ST| Term::eq(k, e)));
+        // the clones themselves are only read if the address check found them independent (reading them otherwise is the use-after-free)
+        let clones_ok = cloned_in > 0 || clones.iter().all(|k| expect(&|e: &ST| same_term(k, e)) || qt.triple().is_some_and(|tr| tr.iter().any(|e| same_term(k, *e))));
+        if !clones_ok { bad.push(format!("static-clone: {}: after drop(store) a Clone::clone of a handed-out term no longer reads as any of the terms that were inserted", $name)); }
+        if !all_ok { bad.push(format!("static-clone: {}: after drop(store) an owned copy of a handed-out term no longer reads as any of the terms that were inserted", $name)); }
+    }}; }
+    run!("FastGraph", { let mut g = FastGraph::new(); for s in &stmts { g.insert(&s[0], &s[1], &s[2]).unwrap(); } g }, ti_fg,
+        items_fg,
+        |g: &FastGraph| { let v: Vec<[ST; 3]> = g.triples().collect_triples().unwrap(); let h: std::collections::HashSet<[ST; 3]> = g.triples().collect_triples().unwrap(); let l: LG = g.triples().collect_triples().unwrap();
+            (v.into_iter().flatten().chain(h.into_iter().flatten()).collect(), l.verif_term_index().verif_strings().0) });
+    run!("LightDataset", { let mut d = LD::new(); for s in &stmts { d.insert(&s[0], &s[1], &s[2], Some(&s[3])).unwrap(); } d.insert(&stmts[0][0], &stmts[0][1], &stmts[0][2], None::<&ST>).unwrap(); d }, ti_ld,
+        items_ld,
+        |d: &LD| { let v: Vec<([ST; 3], Option<ST>)> = d.quads().collect_quads().unwrap(); let f: FD = d.quads().collect_quads().unwrap();
+            (v.into_iter().flat_map(|(t, g)| t.into_iter().chain(g)).collect(), f.verif_term_index().verif_strings().0) });
+    run!("SimpleTermIndex<u32>", { let mut ix = I32::new(); for s in &stmts { for t in s { ix.ensure_index(t).unwrap(); } } ix }, ti_ix,
+        items_ix,
+        |ix: &I32| { let mut iy = IUS::new(); for i in 0..ix.len() { iy.ensure_index(ix.get_term(i as u32)).unwrap(); } (vec![], iy.verif_strings().0) });
+    bad
+}
 
 fn nstr(t: &ST) -> usize { use sophia_api::term::SimpleTerm::*; match t { Iri(_) | BlankNode(_) | Variable(_) => 1, LiteralDatatype(..) | LiteralLanguage(..) => 2, Triple(tr) => tr.iter().map(nstr).sum() } }
 
+/// the same term, spelled the same: compared through EVERY accessor of Term (kind, iri, bnode_id, lexical_form,
+/// datatype, language_tag, variable, triple), each of which must answer None on the other kinds
+fn same_term<A: Term, B: Term>(a: A, b: B) -> bool {
+    a.kind() == b.kind()
+        && match (a.iri(), b.iri()) { (None, None) => true, (Some(x), Some(y)) => x.as_str() == y.as_str(), _ => false }
+        && match (a.bnode_id(), b.bnode_id()) { (None, None) => true, (Some(x), Some(y)) => x.as_str() == y.as_str(), _ => false }
+        && match (a.lexical_form(), b.lexical_form()) { (None, None) => true, (Some(x), Some(y)) => x[..] == y[..], _ => false }
+        && match (a.datatype(), b.datatype()) { (None, None) => true, (Some(x), Some(y)) => x.as_str() == y.as_str(), _ => false }
+        && match (a.language_tag(), b.language_tag()) { (None, None) => true, (Some(x), Some(y)) => x.as_str() == y.as_str(), _ => false }
+        && match (a.variable(), b.variable()) { (None, None) => true, (Some(x), Some(y)) => x.as_str() == y.as_str(), _ => false }
+        && match (a.triple(), b.triple()) { (None, None) => true, (Some([x0, x1, x2]), Some([y0, y1, y2])) => same_term(x0, y0) && same_term(x1, y1) && same_term(x2, y2), _ => false }
+}
+/// term identifiers: 1..=16 Term::eq classes of the pool, 900..=903 the specials, >= 1000 bulk IRIs; 0 = the default graph;
+/// 999 = a term that is never inserted (used by removals only: every early exit of `remove`)
+struct Ids { pool: Vec<Vec<ST>>, specials: Vec<(u64, ST)> }
+impl Ids {
+    fn new() -> Ids {
+        // 900..=903: an IRI and a literal whose DATATYPE is that very IRI (twice): the literal's datatype string must be its own copy
+        Ids { pool: small_pool(), specials: vec![(900, iri(&format!("{XSD}integer"))), (901, lit_dt("7", &format!("{XSD}integer"))), (902, iri("http://e/dt")), (903, lit_dt("x", "http://e/dt"))] }
+    }
+    fn term(&self, id: u64, r: &mut Rng) -> ST { if id == 999 { iri("http://absent.example/never-inserted") } else if (900..=903).contains(&id) { self.specials[(id - 900) as usize].1.clone() } else if id >= 1000 { iri(&format!("http://bulk.example/{id}")) } else { r.pick(&self.pool[(id - 1) as usize]).clone() } }
+    fn id<T: Term>(&self, t: T) -> u64 {
+        if let Some(i) = t.iri() { if let Some(n) = i.as_str().strip_prefix("http://bulk.example/") { return n.parse().unwrap(); } }
+        for (id, s) in &self.specials { if Term::eq(s, t.borrow_term()) { return *id; } }
+        class_id(&self.pool, t.borrow_term())
+    }
+}
+/// what the harness expects of a slot: the terms of its index, in index order (identifier and the spelling first
+/// interned), and its statements as identifier tuples (s, p, o, g; g = 0: default graph / not a dataset)
+#[derive(Clone, Default)]
+struct Sh { terms: Vec<(u64, ST)>, stmts: Vec<[u64; 4]> }
+/// Replay on the shadow what the store must have done with `stmts` (each a list of terms, in interning order), given
+/// that its index gained `newly` terms: a known term costs nothing, an unknown one consumes one of the `newly`; the
+/// first unknown term once they are used up is where a capacity-limited store failed.  Records the model's Insert ops (term, strings - 1, quoted?).
+/// Returns, per statement fully processed, whether it was new to the store; `true` in the second component = stopped early.
+fn walk(sh: &mut Sh, fam: u8, stmts: &[Vec<(u64, ST)>], mut newly: usize, emitted: &mut Vec<(u64, usize, bool)>) -> (Vec<bool>, bool, usize) {
+    let mut res = vec![];
+    for st in stmts {
+        for (id, t) in st {
+            if !sh.terms.iter().any(|(i, _)| i == id) { if newly == 0 { return (res, true, 0); } newly -= 1; sh.terms.push((*id, t.clone())); }
+            emitted.push((*id, nstr(t) - 1, t.is_triple()));
+        }
+        if fam == 0 { res.push(false); } else {
+            let key = [st[0].0, st[1].0, st[2].0, if fam == 2 { st.get(3).map(|x| x.0).unwrap_or(0) } else { 0 }];
+            if sh.stmts.contains(&key) { res.push(false); } else { sh.stmts.push(key); res.push(true); }
+        }
+    }
+    (res, false, newly)
+}
+/// the storage audit from the addresses themselves: every string of every key AND of every index-table entry is owned
+/// (get_term hands the entries out as `&SimpleTerm<'static>`: a borrowed string in one of them can be cloned out of the
+/// store and outlive it), the strings of one store are pairwise disjoint, and the strings of two live stores never
+/// overlap (evaluated by sorting the intervals; a borrowed entry string, if any, is also required to lie inside a key
+/// of the same store, as before the repair of the index)
+fn storage_audit(slots: &[Option<Held>], ops: &[Op]) -> Option<String> {
+    let mut all: Vec<(usize, usize, usize)> = vec![]; // (start, end, store) of every non-empty owned string
+    for (i, h) in slots.iter().enumerate() { if let Some(h) = h {
+        let s = h.get(); let kind = s.kind(); let (keys, entries) = s.strings();
+        if let Some(k) = keys.iter().find(|k| !k.2) { return Some(format!("after {:?}: store #{i} ({kind}) has a key that BORROWS one of its strings ({} bytes at {:#x}) instead of owning it: a clone of the store would point into this store's memory", ops, k.1, k.0)); }
+        let mut ks: Vec<(usize, usize)> = keys.iter().filter(|k| k.1 > 0).map(|k| (k.0, k.0 + k.1)).collect(); ks.sort_unstable();
+        let mut pm = Vec::with_capacity(ks.len()); let mut m = 0usize; for k in &ks { m = m.max(k.1); pm.push(m); }
+        for e in entries.iter().filter(|e| !e.2 && e.1 > 0) {
+            let n = ks.partition_point(|k| k.0 <= e.0);
+            if n == 0 || pm[n - 1] < e.0 + e.1 { return Some(format!("after {:?}: store #{i} ({kind}) has an index-table entry whose string ({} bytes at {:#x}) lies in none of its own keys", ops, e.1, e.0)); }
+        }
+        if let Some(e) = entries.iter().find(|e| !e.2 && e.1 > 0) { return Some(format!("after {:?}: store #{i} ({kind}) has an index-table entry that BORROWS a string ({} bytes at {:#x}): get_term hands it out as &SimpleTerm<'static>, so Clone::clone of it yields a term that may outlive the store while pointing into it", ops, e.1, e.0)); }
+        // keys and entries of one store: pairwise disjoint storage
+        let mut own: Vec<(usize, usize)> = ks.clone(); own.extend(entries.iter().filter(|e| e.2 && e.1 > 0).map(|e| (e.0, e.0 + e.1))); own.sort_unstable();
+        let mut hi = 0usize; for (st, en) in &own { if *st < hi { return Some(format!("after {:?}: store #{i} ({kind}): two of its own strings (keys / index-table entries) overlap at {:#x}", ops, st)); } hi = hi.max(*en); }
+        all.extend(own.iter().map(|k| (k.0, k.1, i)));
+    } }
+    all.sort_unstable();
+    let mut maxend = vec![(0usize, 0usize); slots.len()];
+    for (st, en, i) in all {
+        for (j, (e, a)) in maxend.iter().enumerate() { if j != i && *e > st { let (lo, hi) = (i.min(j), i.max(j)); return Some(format!("after {:?}: stores #{lo} ({}) and #{hi} share storage: a {}-byte string at {:#x} overlaps a string (at {:#x}) of the other store", ops, slots[lo].as_ref().unwrap().get().kind(), en - st, st, a)); } }
+        if en > maxend[i].0 { maxend[i] = (en, st); }
+    }
+    None
+}
+/// everything that must hold after every step
+fn check_step(slots: &[Option<Held>], shadow: &[Sh], ids: &Ids, ops: &[Op], cloned_from: &[(usize, usize)], run_shapes: bool, absent: &ST) -> Option<String> {
+    // no live store points into memory it does not own
+    let audits: Vec<Option<Vec<bool>>> = slots.iter().map(|h| h.as_ref().map(|h| h.get().audit())).collect();
+    for (i, au) in audits.iter().enumerate() { if let Some(au) = au { if au.iter().any(|b| !b) { let s = slots[i].as_ref().unwrap().get();
+        return Some(format!("after {:?}: store #{i} ({}) holds {} of {} index entries that point outside its own key storage (would read memory it does not own)", ops, s.kind(), au.iter().filter(|b| !**b).count(), au.len())); } } }
+    if let Some(f) = storage_audit(slots, ops) { return Some(f); }
+    if run_shapes { for (i, h) in slots.iter().enumerate() { if let Some(h) = h { let s = h.get(); if cloned_from.iter().any(|(a, b)| *a == i || *b == i) { if let Some(why) = s.shapes(absent) { return Some(format!("after {:?}: store #{i} ({}), a clone or the source of a clone: {why}", ops, s.kind())); } } } } }
+    // every live store still holds exactly the terms it interned, in order and as first spelled (a clone: those of its
+    // original at the time of cloning plus its own later ones)
+    for (i, h) in slots.iter().enumerate() { if let Some(h) = h { let s = h.get();
+        let n = s.len(); let sh = &shadow[i];
+        if n != sh.terms.len() || (0..n).any(|k| !same_term(s.term_at(k), &sh.terms[k].1)) {
+            let got: Vec<u64> = (0..n).map(|k| ids.id(s.term_at(k))).collect();
+            let exp: Vec<u64> = sh.terms.iter().map(|x| x.0).collect();
+            let first = (0..n.min(sh.terms.len())).find(|k| !same_term(s.term_at(*k), &sh.terms[*k].1));
+            return Some(format!("after {:?}: store #{i} ({}) no longer holds the terms it interned: index table reads {:?} ({n} terms), expected {:?} ({} terms){}", ops, s.kind(), got.iter().take(12).collect::<Vec<_>>(), exp.iter().take(12).collect::<Vec<_>>(), exp.len(),
+                first.map(|k| format!("; first difference at index {k}: reads {:?}, expected {:?}", s.term_at(k), sh.terms[k].1)).unwrap_or_default()));
+        }
+            if s.is_empty() != (n == 0) { return Some(format!("after {:?}: store #{i} ({}): the term index says is_empty() = {} with len() = {n}", ops, s.kind(), s.is_empty())); }
+        // and exactly the statements it was given (a clone: those of its original at the time of cloning, then its own)
+        if s.fam() != 0 {
+            let mut got: Vec<[u64; 4]> = s.stmts().iter().map(|(t, g)| [ids.id(t[0]), ids.id(t[1]), ids.id(t[2]), g.map(|g| ids.id(g)).unwrap_or(0)]).collect();
+            let mut exp = sh.stmts.clone(); let listed = got.len(); got.sort_unstable(); got.dedup(); exp.sort_unstable();
+            if got != exp || listed != exp.len() { return Some(format!("after {:?}: store #{i} ({}) lists {listed} statements {:?}, expected the {} statements {:?} (identifiers s, p, o, g; 0 = default graph)", ops, s.kind(), got.iter().take(8).collect::<Vec<_>>(), exp.len(), exp.iter().take(8).collect::<Vec<_>>())); }
+        }
+    } }
+    None
+}
+/// New(slot, kind, how) Insert(slot, ids, via) Bulk(slot, first id, n) Remove(slot, ids) Clone(src, dst, via) Drop(slot, via) Swap(a, b, via)
+/// CloneFrom(src, dst) Take(src, dst, via) Collect(src, dst, kind of dst, how) Extend(src, dst) Rewrap(slot, container)
+/// CloneGrow(src, dst, first id, n) Thread(slot, ids)
 #[derive(Debug, Clone)]
-enum Op { New(usize, usize), Insert(usize, Vec<u64>), Bulk(usize, u64, usize), Remove(usize, Vec<u64>), Clone(usize, usize), Drop(usize), Swap(usize, usize), CloneFrom(usize, usize) }
+enum Op { New(usize, usize, usize), Insert(usize, Vec<u64>, usize), Bulk(usize, u64, usize), Remove(usize, Vec<u64>), Clone(usize, usize, usize), Drop(usize, usize), Swap(usize, usize, usize), CloneFrom(usize, usize),
+    Take(usize, usize, usize), Collect(usize, usize, usize, usize), Extend(usize, usize), Rewrap(usize, usize), CloneGrow(usize, usize, u64, usize), Thread(usize, Vec<u64>) }
 
-thread_local! { static QUIET: std::cell::Cell<bool> = std::cell::Cell::new(false); }
+/// capacity of the tiny indexes (ensure_index fails once `len` reaches Index::MAX)
+fn cap(s: &Store) -> Option<usize> { match s.knum() { 7 => Some(6), 8 | 15 | 16 | 17 => Some(9), _ => None } }
+/// the terms a statement makes the store intern, in interning order: bare index: all four (the 4th unless 0); graph: s p o; dataset: s p o g (g unless 0)
+fn shape_stmt(fam: u8, ids: &[u64], ts: &[Option<ST>]) -> Vec<(u64, ST)> {
+    let n = if fam == 1 { 3 } else { 4 };
+    (0..n).filter(|i| ids[*i] != 0).map(|i| (ids[i], ts[i].clone().unwrap())).collect()
+}
+fn ins_ops(slot: usize, v: &[(u64, usize, bool)]) -> String { coq_list(v.iter().map(|(id, n, q)| format!("Insert {slot} {id} {n} {}", coq_bool(*q)))) }
+/// insert one statement into the real store and replay it on the shadow; Some(description) if the store misbehaved
+fn do_insert(st: &mut Store, sh: &mut Sh, slot: usize, stmt: &[(u64, ST)], via: usize, emitted: &mut Vec<(u64, usize, bool)>) -> Option<String> {
+    let before = st.len(); let fam = st.fam();
+    let res = st.insert([&stmt[0].1, &stmt[1].1, &stmt[2].1], stmt.get(3).map(|x| &x.1), via);
+    let newly = st.len().wrapping_sub(before);
+    let (news, early, left) = walk(sh, fam, std::slice::from_ref(&stmt.to_vec()), newly, emitted);
+    if left != 0 { return Some(format!("inserting the statement {:?} made the term index of a {} grow by {newly} terms, {left} more than the statement has new terms", stmt.iter().map(|x| x.0).collect::<Vec<_>>(), st.kind())); }
+    if res.is_err() != early { return Some(format!("inserting the statement {:?} into a {} returned {} although the index {}", stmt.iter().map(|x| x.0).collect::<Vec<_>>(), st.kind(), if res.is_err() { "an error" } else { "Ok" }, if early { "did not intern all its terms" } else { "interned all its terms" })); }
+    if early { match cap(st) { Some(c) if sh.terms.len() == c => {} _ => return Some(format!("a {} holding {} terms refused a new term (TermIndexFullError)", st.kind(), sh.terms.len())) } }
+    if let (Ok(Some(b)), Some(n)) = (res, news.first()) { if b != *n { return Some(format!("inserting the statement {:?} into a {} returned {b}, but the statement was {} the store", stmt.iter().map(|x| x.0).collect::<Vec<_>>(), st.kind(), if *n { "not yet in" } else { "already in" })); } }
+    None
+}
+/// the statements (for a bare index: the terms) of a live store in ITERATION order, as the shadow spells them
+/// an independent copy of a term handed out by a store (NOT Clone::clone: that one copies the pointers of borrowed strings)
+fn deep<T: Term>(t: T) -> ST { t.into_term() }
+fn source_seq(src: &Store, ids: &Ids) -> Vec<Vec<(u64, ST)>> {
+    if src.fam() == 0 { (0..src.len()).map(|k| { let t = src.term_at(k); vec![(ids.id(t), deep(t))] }).collect() }
+    else { src.stmts().iter().map(|(t, g)| { let mut v: Vec<(u64, ST)> = t.iter().map(|x| (ids.id(*x), deep(*x))).collect(); if let Some(g) = g { v.push((ids.id(*g), deep(*g))); } v }).collect() }
+}
+
 fn main() {
     let a = parse_args();
     let default_hook = std::panic::take_hook();
     std::panic::set_hook(Box::new(move |info| { if !QUIET.with(|q| q.get()) { default_hook(info) } }));
     let mut sum = Summary::default();
-    sum.rule = "case = history of 4..40 ops over up to 5 store slots (kinds: SimpleTermIndex<u32/u16>, Fast/Light graph and dataset, small::FastGraph): new, insert statement (terms of every kind incl. quoted triples), bulk insert of 20..300 fresh terms (table growth across reallocation thresholds), remove, clone, drop (of originals or clones), swap/move; \
+    sum.rule = "case = history of 4..40 ops over up to 5 store slots (18 kinds: SimpleTermIndex<u32/u16/usize/tiny>, Fast/Light graph and dataset over u32, u16, usize and tiny capacity-limited indexes), each store kept inline or inside a Box/Rc/Arc/Vec: \
+new (Default, new(), bulk constructor on an empty source, mem::take), insert statement (terms of every kind incl. quoted triples, default-graph quads, also through a term type with owned-string accessors), bulk insert of 20..300 fresh terms (table growth across reallocation thresholds), remove (mostly of a statement that is there, or of one differing from it by one term, possibly a term the store never saw), \
+clone in 18 ways (Clone, Box, Rc/Arc::make_mut, unwrap_or_clone, Vec clone/to_vec/extend_from_slice/cloned/vec![x;n]/resize, Option, Cow, to_owned, array, tuple, clone of a clone, clone_from into a fresh store), clone_from, collect the statements of a live store into a new store of any kind of the same family (from_*_source, collect_*, insert_all, via a Vec), extend a live store from another, \
+drop (drop, overwrite, Vec::clear/truncate, on another thread), swap/move (slots, mem::swap), mem::take/replace, re-wrap into another container, clone then grow the original by 200..600 terms, insert on another thread; \
 non-trivial = at least one clone whose source is later dropped or mutated while the clone stays live and non-empty; distinct = distinct printed history".into();
-    let pool = small_pool();
-    // 900..=903: an IRI and a literal whose DATATYPE is that very IRI (twice): the literal's datatype string must be its own copy
-    let special = |id: u64| -> ST { match id { 900 => iri(&format!("{XSD}integer")), 901 => lit_dt("7", &format!("{XSD}integer")), 902 => iri("http://e/dt"), _ => lit_dt("x", "http://e/dt") } };
-    let term = |id: u64, r: &mut Rng| -> ST { if (900..=903).contains(&id) { special(id) } else if id >= 1000 { iri(&format!("http://bulk.example/{id}")) } else { r.pick(&pool[(id - 1) as usize]).clone() } };
-    let tid = |t: &ST| -> u64 { for id in 900..=903u64 { if Term::eq(&special(id), t.borrow_term()) { return id; } } if let Some(i) = t.iri() { if let Some(n) = i.as_str().strip_prefix("http://bulk.example/") { return n.parse().unwrap(); } } class_id(&pool, t.borrow_term()) };
+    let ids = Ids::new();
+    let absent = iri("http://absent.example/never-inserted");
     let base = Rng::new(a.seed);
     let mut cases = vec![]; let mut seen = std::collections::HashSet::new();
     let range: Vec<usize> = match a.only { Some(i) => vec![i], None => (0..a.n).collect() };
@@ -173,100 +629,176 @@ non-trivial = at least one clone whose source is later dropped or mutated while 
         if a.only.is_none() { let _ = std::fs::create_dir_all(&a.out); let _ = std::fs::write(format!("{}/progress", a.out), idx.to_string()); }
         let mut r = base.fork(idx as u64);
         let nops = r.range(4, 40);
-        let mut slots: Vec<Option<Store>> = (0..5).map(|_| None).collect();
-        let mut shadow: Vec<Vec<u64>> = (0..5).map(|_| vec![]).collect(); // expected term ids by index, per slot
-        let mut ops: Vec<Op> = vec![]; let mut coq_ops: Vec<String> = vec![];
-        let mut bulk_next = 1000u64; let mut interesting = false; let mut cloned_from: Vec<(usize, usize)> = vec![];
+        let mut slots: Vec<Option<Held>> = (0..5).map(|_| None).collect();
+        let mut shadow: Vec<Sh> = (0..5).map(|_| Sh::default()).collect(); // expected terms by index and statements, per slot
+        let mut ops: Vec<Op> = vec![]; let mut coq_steps: Vec<String> = vec![];
+        let mut bulk_next = 1000u64; let mut interesting = false; let mut cloned_from: Vec<(usize, usize)> = vec![]; let mut tmp_next = 100u64;
         let mut failure: Option<String> = None;
         for _ in 0..nops {
             let live: Vec<usize> = (0..5).filter(|i| slots[*i].is_some()).collect();
             let free: Vec<usize> = (0..5).filter(|i| slots[*i].is_none()).collect();
-            let choice = r.below(13);
-            let op = if live.is_empty() || (choice == 0 && !free.is_empty()) { Op::New(*r.pick(&free), r.below(9)) }
-                else { let s = *r.pick(&live); match choice {
-                    1..=4 => Op::Insert(s, (0..4).map(|_| if r.chance(1, 5) { 900 + r.below(4) as u64 } else { 1 + r.below(16) as u64 }).collect()),
+            let choice = r.below(24);
+            let gen_ids = |r: &mut Rng, specials: bool| -> Vec<u64> { (0..4).map(|j| if specials && r.chance(1, 5) { 900 + r.below(4) as u64 } else if j == 3 && r.chance(1, 4) { 0 } else { 1 + r.below(16) as u64 }).collect() };
+            let op = if live.is_empty() || (choice == 0 && !free.is_empty()) { Op::New(*r.pick(&free), r.below(NKINDS), r.below(4)) }
+                else { let s = *r.pick(&live); let fam = slots[s].as_ref().unwrap().get().fam(); match choice {
+                    1..=4 => Op::Insert(s, gen_ids(&mut r, true), r.below(3)),
                     5 => { let n = r.range(20, 300); let o = Op::Bulk(s, bulk_next, n); bulk_next += n as u64; o }
-                    6 => Op::Remove(s, (0..4).map(|_| 1 + r.below(16) as u64).collect()),
-                    7..=8 if !free.is_empty() => Op::Clone(s, *r.pick(&free)),
-                    9 => Op::Drop(s),
-                    10 if live.len() >= 2 => Op::Swap(s, *r.pick(&live)),
-                    11 if live.len() >= 2 => { let d = *r.pick(&live); if d != s && std::mem::discriminant(slots[s].as_ref().unwrap()) == std::mem::discriminant(slots[d].as_ref().unwrap()) { Op::CloneFrom(s, d) } else if !free.is_empty() { Op::Clone(s, *r.pick(&free)) } else { Op::Drop(s) } }
-                    _ => Op::Insert(s, (0..4).map(|_| 1 + r.below(16) as u64).collect()),
+                    6 => { let sh = &shadow[s]; if !sh.stmts.is_empty() && r.chance(2, 3) { let mut v = r.pick(&sh.stmts).to_vec(); if r.chance(1, 3) { let j = r.below(if fam == 2 { 4 } else { 3 }); v[j] = if r.chance(1, 2) { 999 } else { 1 + r.below(16) as u64 }; } Op::Remove(s, v) } else { Op::Remove(s, gen_ids(&mut r, false)) } }
+                    7..=9 if !free.is_empty() => Op::Clone(s, *r.pick(&free), if r.chance(1, 3) { 0 } else { r.below(NVIA) }),
+                    10 => Op::Drop(s, r.below(6)),
+                    11 if live.len() >= 2 => Op::Swap(s, *r.pick(&live), r.below(2)),
+                    12 if live.len() >= 2 => { // prefer a target of the same type (the concrete clone_from); else any other live store (drop + clone)
+                        let same: Vec<usize> = live.iter().copied().filter(|d| *d != s && slots[*d].as_ref().unwrap().get().knum() == slots[s].as_ref().unwrap().get().knum()).collect();
+                        let d = if !same.is_empty() { *r.pick(&same) } else { *r.pick(&live) };
+                        if d != s { Op::CloneFrom(s, d) } else if !free.is_empty() { Op::Clone(s, *r.pick(&free), 0) } else { Op::Drop(s, 0) } }
+                    13 if !free.is_empty() => Op::Take(s, *r.pick(&free), r.below(2)),
+                    14..=15 if !free.is_empty() => { let kinds: Vec<usize> = (0..NKINDS).filter(|k| fam_of(*k) == fam).collect(); Op::Collect(s, *r.pick(&free), *r.pick(&kinds), r.below(4)) }
+                    16 if live.iter().any(|d| *d != s && slots[*d].as_ref().unwrap().get().fam() == fam) => { let c: Vec<usize> = live.iter().copied().filter(|d| *d != s && slots[*d].as_ref().unwrap().get().fam() == fam).collect(); Op::Extend(s, *r.pick(&c)) }
+                    17 => Op::Rewrap(s, r.below(5)),
+                    18 if !free.is_empty() => { let n = r.range(200, 600); let o = Op::CloneGrow(s, *r.pick(&free), bulk_next, n); bulk_next += n as u64; o }
+                    19 => Op::Thread(s, gen_ids(&mut r, true)),
+                    _ => Op::Insert(s, gen_ids(&mut r, false), 0),
                 } };
+            if a.only.is_some() { eprintln!("OP {op:?}"); }
+            let mutated_source = |s: usize, slots: &Vec<Option<Held>>, cloned_from: &Vec<(usize, usize)>| cloned_from.iter().any(|(src, dst)| *src == s && slots[*dst].is_some());
             match &op {
-                Op::New(s, k) => { slots[*s] = Some(new_store(*k)); shadow[*s].clear(); coq_ops.push(format!("New {s}")); }
-                Op::Insert(s, ids) => {
-                    let ts: Vec<ST> = ids.iter().map(|i| term(*i, &mut r)).collect();
-                    if matches!(slots[*s], Some(Store::I16(_)) | Some(Store::SFG(_))) && slots[*s].as_ref().unwrap().len() > 60000 { continue; }
-                    let used = slots[*s].as_mut().unwrap().insert(&ts);
-                    for t in &ts[..used] { coq_ops.push(format!("Insert {s} {} {} {}", tid(t), nstr(t) - 1, coq_bool(t.is_triple()))); if !shadow[*s].contains(&tid(t)) { shadow[*s].push(tid(t)); } }
-                    if cloned_from.iter().any(|(src, dst)| src == s && slots[*dst].is_some()) { interesting = true; }
+                Op::New(s, k, how) => { slots[*s] = Some(Held::wrap(Store::mk(*k, *how), r.below(5))); shadow[*s] = Sh::default(); coq_steps.push(format!("[New {s}]")); }
+                Op::Insert(s, ..) | Op::Thread(s, ..) | Op::Bulk(s, ..) if slots[*s].as_ref().unwrap().get().is_u16() && slots[*s].as_ref().unwrap().get().len() > 55000 => { continue; }
+                Op::Insert(s, tids, via) => {
+                    let ts: Vec<Option<ST>> = tids.iter().map(|i| if *i == 0 { None } else { Some(ids.term(*i, &mut r)) }).collect();
+                    let st = slots[*s].as_mut().unwrap().get_mut(); let stmt = shape_stmt(st.fam(), tids, &ts); let mut em = vec![];
+                    if let Some(f) = do_insert(st, &mut shadow[*s], *s, &stmt, *via, &mut em) { failure = Some(format!("after {:?} then {:?}: store #{s}: {f}", ops, op)); }
+                    coq_steps.push(ins_ops(*s, &em));
+                    if mutated_source(*s, &slots, &cloned_from) { interesting = true; }
                 }
-                Op::Bulk(s, from, n) => {
-                    if matches!(slots[*s], Some(Store::I16(_)) | Some(Store::SFG(_))) && slots[*s].as_ref().unwrap().len() + 4 * n > 60000 { continue; }
-                    let st = slots[*s].as_mut().unwrap();
-                    for k in (0..*n).step_by(4) { let ts: Vec<ST> = (0..4).map(|j| term(from + (k + j) as u64, &mut r)).collect(); let used = st.insert(&ts); for t in &ts[..used] { coq_ops.push(format!("Insert {s} {} 0 false", tid(t))); if !shadow[*s].contains(&tid(t)) { shadow[*s].push(tid(t)); } } }
-                    coq_ops.push(format!("Grow {s}"));
+                Op::Thread(s, tids) => {
+                    let ts: Vec<Option<ST>> = tids.iter().map(|i| if *i == 0 { None } else { Some(ids.term(*i, &mut r)) }).collect();
+                    let mut st = slots[*s].take().unwrap().unwrap(); let stmt = shape_stmt(st.fam(), tids, &ts); let mut sh = std::mem::take(&mut shadow[*s]); let slot = *s;
+                    let (st, sh, em, f) = std::thread::spawn(move || { let mut em = vec![]; let f = do_insert(&mut st, &mut sh, slot, &stmt, 0, &mut em); (st, sh, em, f) }).join().unwrap();
+                    slots[*s] = Some(Held::wrap(st, r.below(5))); shadow[*s] = sh;
+                    if let Some(f) = f { failure = Some(format!("after {:?} then {:?}: store #{s} (moved to another thread and back): {f}", ops, op)); }
+                    coq_steps.push(ins_ops(*s, &em));
+                    if mutated_source(*s, &slots, &cloned_from) { interesting = true; }
                 }
-                Op::Remove(s, ids) => { let ts: Vec<ST> = ids.iter().map(|i| term(*i, &mut r)).collect(); slots[*s].as_mut().unwrap().remove(&ts); }
-                Op::Clone(s, d) => { let c = slots[*s].as_ref().unwrap().clone_it(); slots[*d] = Some(c); shadow[*d] = shadow[*s].clone(); cloned_from.push((*s, *d)); coq_ops.push(format!("Clone {s} {d}")); }
+                Op::Bulk(s, from, n) | Op::CloneGrow(s, _, from, n) => {
+                    if let Op::CloneGrow(_, d, ..) = &op { let c = slots[*s].as_ref().unwrap().get().clone(); slots[*d] = Some(Held::wrap(c, r.below(5))); shadow[*d] = shadow[*s].clone(); cloned_from.push((*s, *d)); coq_steps.push(format!("[Clone {s} {d}]")); }
+                    let st = slots[*s].as_mut().unwrap().get_mut(); let mut em = vec![];
+                    if !(st.is_u16() && st.len() + 4 * n > 55000) {
+                        for k in (0..*n).step_by(4) {
+                            let tids: Vec<u64> = (0..4).map(|j| from + (k + j) as u64).collect(); let ts: Vec<Option<ST>> = tids.iter().map(|i| Some(ids.term(*i, &mut r))).collect();
+                            let stmt = shape_stmt(st.fam(), &tids, &ts);
+                            if let Some(f) = do_insert(st, &mut shadow[*s], *s, &stmt, 0, &mut em) { if failure.is_none() { failure = Some(format!("after {:?} then {:?}: store #{s}: {f}", ops, op)); } }
+                        }
+                    }
+                    coq_steps.push(ins_ops(*s, &em)); coq_steps.push(format!("[Grow {s}]"));
+                    if mutated_source(*s, &slots, &cloned_from) { interesting = true; }
+                }
+                Op::Remove(s, tids) => {
+                    let ts: Vec<Option<ST>> = tids.iter().map(|i| if *i == 0 { None } else { Some(ids.term(*i, &mut r)) }).collect();
+                    let st = slots[*s].as_mut().unwrap().get_mut(); let fam = st.fam();
+                    let got = st.remove([ts[0].as_ref().unwrap(), ts[1].as_ref().unwrap(), ts[2].as_ref().unwrap()], ts[3].as_ref());
+                    if fam != 0 { let key = [tids[0], tids[1], tids[2], if fam == 2 { tids[3] } else { 0 }]; let sh = &mut shadow[*s]; let was = sh.stmts.contains(&key); sh.stmts.retain(|k| *k != key);
+                        if got != Some(was) { failure = Some(format!("after {:?} then {:?}: store #{s} ({}): remove returned {got:?}, but the statement was {} the store", ops, op, st.kind(), if was { "in" } else { "not in" })); }
+                        if was && mutated_source(*s, &slots, &cloned_from) { interesting = true; } }
+                }
+                Op::Clone(s, d, via) => {
+                    let h = slots[*s].take().unwrap(); let (h2, c, extra) = clone_via(h, *via); slots[*s] = Some(h2); slots[*d] = Some(Held::wrap(c, r.below(5)));
+                    shadow[*d] = shadow[*s].clone(); cloned_from.push((*s, *d));
+                    coq_steps.push(if *via == 15 { tmp_next += 1; format!("clone_chain_ops {s} {} {d}", tmp_next - 1) } else if *via == 16 { format!("(New {d} :: clone_from_ops {s} {d})") }
+                        else if extra > 0 { let t: Vec<String> = (0..extra).map(|_| { tmp_next += 1; (tmp_next - 1).to_string() }).collect(); format!("clone_via_ops {s} {d} {}", coq_list(t)) } else { format!("[Clone {s} {d}]") });
+                }
                 Op::CloneFrom(s, d) => {
                     // for the model: the target is dropped and replaced by a clone of the source
-                    let src = slots[*s].take().unwrap(); let ok = slots[*d].as_mut().unwrap().clone_from_it(&src); slots[*s] = Some(src);
-                    if ok { shadow[*d] = shadow[*s].clone(); cloned_from.push((*s, *d)); coq_ops.push(format!("Drop {d}")); coq_ops.push(format!("Clone {s} {d}")); }
+                    let src = slots[*s].take().unwrap(); slots[*d].as_mut().unwrap().get_mut().clone_from(src.get()); slots[*s] = Some(src);
+                    shadow[*d] = shadow[*s].clone(); cloned_from.push((*s, *d)); coq_steps.push(format!("clone_from_ops {s} {d}"));
                 }
-                Op::Drop(s) => { let st = slots[*s].take(); drop(st); shadow[*s].clear(); coq_ops.push(format!("Drop {s}"));
-                    if cloned_from.iter().any(|(src, dst)| (src == s && slots[*dst].as_ref().is_some_and(|x| x.len() > 0)) || (dst == s && slots[*src].as_ref().is_some_and(|x| x.len() > 0))) { interesting = true; } }
-                Op::Swap(x, y) => { if x != y { slots.swap(*x, *y); shadow.swap(*x, *y); for c in cloned_from.iter_mut() { for e in [&mut c.0, &mut c.1] { if *e == *x { *e = *y } else if *e == *y { *e = *x } } } coq_ops.push(format!("Swap {x} {y}")); } }
+                Op::Collect(s, d, dk, how) => {
+                    let src = slots[*s].as_ref().unwrap().get();
+                    match Store::collect(src, *dk, *how) {
+                        Ok(new) => {
+                            let seq = source_seq(src, &ids); let mut sh = Sh::default(); let mut em = vec![];
+                            let (_, early, left) = walk(&mut sh, new.fam(), &seq, new.len(), &mut em);
+                            if early || left != 0 { failure = Some(format!("after {:?} then {:?}: a {} collected from store #{s} ({}) holds {} terms, the source lists {} distinct ones", ops, op, new.kind(), src.kind(), new.len(), sh.terms.len() + usize::from(early))); }
+                            if cap(&new).is_some_and(|c| sh.terms.len() > c) { failure = Some(format!("after {:?} then {:?}: a {} holds {} terms, more than its index type can number", ops, op, new.kind(), sh.terms.len())); }
+                            slots[*d] = Some(Held::wrap(new, r.below(5))); shadow[*d] = sh; cloned_from.push((*s, *d));
+                            coq_steps.push(format!("collect_ops {d} {}", coq_list(em.iter().map(|(id, n, q)| format!("({id}, {n}%nat, {})", coq_bool(*q))))));
+                        }
+                        Err(()) => { // only a capacity-limited target may refuse, and only if the source has more terms than it can number
+                            let need = { let seq = source_seq(src, &ids); let mut sh = Sh::default(); let mut em = vec![]; walk(&mut sh, fam_of(*dk), &seq, usize::MAX, &mut em); sh.terms.len() };
+                            let c = match *dk { 7 => Some(6), 8 | 15 | 16 | 17 => Some(9), _ => None };
+                            if !c.is_some_and(|c| need > c) { failure = Some(format!("after {:?} then {:?}: collecting the {need} terms of store #{s} ({}) into a store of kind {dk} failed", ops, op, src.kind())); }
+                        }
+                    }
+                }
+                Op::Extend(s, d) => {
+                    let mut dst = slots[*d].take().unwrap(); let src = slots[*s].as_ref().unwrap().get();
+                    let seq = source_seq(src, &ids); let before = dst.get().len();
+                    let res = dst.get_mut().extend(src); let newly = dst.get().len().wrapping_sub(before); let mut em = vec![];
+                    let (_, early, left) = walk(&mut shadow[*d], dst.get().fam(), &seq, newly, &mut em);
+                    if left != 0 || res.is_err() != early || (early && cap(dst.get()) != Some(shadow[*d].terms.len())) { failure = Some(format!("after {:?} then {:?}: extending store #{d} ({}) with the content of store #{s} ({}) returned {}, its index grew by {newly} terms ({left} unexplained) to {}", ops, op, dst.get().kind(), src.kind(), if res.is_err() { "an error" } else { "Ok" }, dst.get().len())); }
+                    slots[*d] = Some(dst); coq_steps.push(ins_ops(*d, &em));
+                    if mutated_source(*d, &slots, &cloned_from) { interesting = true; }
+                }
+                Op::Take(s, d, via) => {
+                    let st = slots[*s].as_mut().unwrap().get_mut();
+                    let old = if *via == 0 { st.take() } else { let fresh = Store::mk(st.knum(), r.below(4)); std::mem::replace(st, fresh) };
+                    slots[*d] = Some(Held::wrap(old, r.below(5))); shadow[*d] = std::mem::take(&mut shadow[*s]);
+                    for c in cloned_from.iter_mut() { for e in [&mut c.0, &mut c.1] { if *e == *s { *e = *d } } }
+                    coq_steps.push(format!("take_ops {s} {d}"));
+                }
+                Op::Rewrap(s, k) => { let st = slots[*s].take().unwrap().unwrap(); slots[*s] = Some(Held::wrap(st, *k)); coq_steps.push(format!("[Grow {s}]")); }
+                Op::Drop(s, via) => {
+                    let st = slots[*s].take().unwrap();
+                    match via { 1 => { drop(st); slots[*s] = Some(Held::wrap(Store::mk(r.below(NKINDS), r.below(4)), r.below(5))); }
+                        2 => { let mut v = vec![st.unwrap()]; v.clear(); std::hint::black_box(&v); } 3 => { let mut v = vec![st.unwrap(), Store::mk(0, 0)]; v.truncate(0); std::hint::black_box(&v); }
+                        4 => { let x = st.unwrap(); std::thread::spawn(move || drop(x)).join().unwrap(); } 5 => { let _ = st; } _ => drop(st) }
+                    shadow[*s] = Sh::default(); coq_steps.push(if *via == 1 { format!("overwrite_ops {s}") } else { format!("[Drop {s}]") });
+                    if cloned_from.iter().any(|(src, dst)| (src == s && slots[*dst].as_ref().is_some_and(|x| x.get().len() > 0)) || (dst == s && slots[*src].as_ref().is_some_and(|x| x.get().len() > 0))) { interesting = true; } }
+                Op::Swap(x, y, via) => { if x != y {
+                    if *via == 0 { slots.swap(*x, *y); } else { let mut hx = slots[*x].take().unwrap(); let mut hy = slots[*y].take().unwrap(); std::mem::swap(hx.get_mut(), hy.get_mut()); slots[*x] = Some(hx); slots[*y] = Some(hy); }
+                    shadow.swap(*x, *y); for c in cloned_from.iter_mut() { for e in [&mut c.0, &mut c.1] { if *e == *x { *e = *y } else if *e == *y { *e = *x } } } coq_steps.push(format!("[Swap {x} {y}]")); } }
             }
             ops.push(op);
-            // oracle after every step: no live store points into memory it does not own
-            for (i, s) in slots.iter().enumerate() { if let Some(s) = s { let au = s.audit(); if au.iter().any(|b| !b) && failure.is_none() {
-                failure = Some(format!("after {:?}: store #{i} ({}) holds {} of {} index entries that point outside its own key storage (would read memory it does not own)", ops, s.kind(), au.iter().filter(|b| !**b).count(), au.len())); } } }
-            // the same from the addresses themselves: every key owns its strings, the strings of two live stores never overlap,
-            // every borrowed string of an index table lies inside a key string of the same store, table and map have the same size
+            // oracle after every step (see check_step)
             if failure.is_none() {
-                let strs: Vec<Option<(Vec<(usize, usize, bool)>, Vec<(usize, usize, bool)>)>> = slots.iter().map(|s| s.as_ref().map(|s| s.strings())).collect();
-                'outer: for (i, si) in strs.iter().enumerate() { if let Some((keys, entries)) = si {
-                    let kind = slots[i].as_ref().unwrap().kind();
-                    if let Some(k) = keys.iter().find(|k| !k.2) { failure = Some(format!("after {:?}: store #{i} ({kind}) has a key that BORROWS one of its strings ({} bytes at {:#x}) instead of owning it: a clone of the store would point into this store's memory", ops, k.1, k.0)); break 'outer; }
-                    for e in entries.iter().filter(|e| !e.2 && e.1 > 0) { if !keys.iter().any(|k| k.0 <= e.0 && e.0 + e.1 <= k.0 + k.1) { failure = Some(format!("after {:?}: store #{i} ({kind}) has an index-table entry whose string ({} bytes at {:#x}) lies in none of its own keys", ops, e.1, e.0)); break 'outer; } }
-                    for (j, sj) in strs.iter().enumerate().skip(i + 1) { if let Some((keys2, _)) = sj {
-                        if let Some(k) = keys.iter().filter(|k| k.1 > 0).find(|k| keys2.iter().any(|m| m.1 > 0 && k.0 < m.0 + m.1 && m.0 < k.0 + k.1)) { failure = Some(format!("after {:?}: stores #{i} ({kind}) and #{j} share storage: a {}-byte key string at {:#x} overlaps a key string of the other store", ops, k.1, k.0)); break 'outer; }
-                    } }
-                } }
+                let run_shapes = matches!(ops.last(), Some(Op::Clone(..)) | Some(Op::CloneFrom(..)) | Some(Op::Insert(..)) | Some(Op::Remove(..)) | Some(Op::Collect(..)) | Some(Op::Extend(..)) | Some(Op::Take(..)) | Some(Op::CloneGrow(..)) | Some(Op::Thread(..)));
+                failure = check_step(&slots, &shadow, &ids, &ops, &cloned_from, run_shapes, &absent);
             }
-            if failure.is_none() && matches!(ops.last(), Some(Op::Clone(..)) | Some(Op::CloneFrom(..)) | Some(Op::Insert(..)) | Some(Op::Remove(..))) {
-                for (i, s) in slots.iter().enumerate() { if let Some(s) = s { if cloned_from.iter().any(|(a, b)| *a == i || *b == i) { if let Some(why) = s.shapes() { failure = Some(format!("after {:?}: store #{i} ({}), a clone or the source of a clone: {why}", ops, s.kind())); break; } } } }
-            }
-            // and every live store still holds exactly the terms it interned, in order (a clone: those of its
-            // original at the time of cloning plus its own later ones)
-            if failure.is_none() { for (i, s) in slots.iter().enumerate() { if let Some(s) = s { if s.audit().iter().all(|b| *b) {
-                let got: Vec<u64> = (0..s.len()).map(|k| tid(&s.term_at(k))).collect();
-                if got != shadow[i] && failure.is_none() { failure = Some(format!("after {:?}: store #{i} ({}) no longer holds the terms it interned: index table reads {:?}, expected {:?}", ops, s.kind(), got.iter().take(12).collect::<Vec<_>>(), shadow[i].iter().take(12).collect::<Vec<_>>())); }
-            } } } }
             if failure.is_some() { break; }
         }
-        if failure.is_none() { for (i, s) in slots.iter().enumerate() { if let Some(s) = s { let bad = s.out_of_range_reads(); if let Some(b) = bad.first() { failure = Some(format!("after {:?}: store #{i} ({}): {b} (TermIndex::get_term is a safe method: an index that was never handed out must panic, not read out of bounds)", ops, s.kind())); break; } } } }
+        if failure.is_none() { for (i, h) in slots.iter().enumerate() { if let Some(h) = h { let s = h.get(); let bad = s.out_of_range_reads(); if let Some(b) = bad.first() { failure = Some(format!("after {:?}: store #{i} ({}): {b} (TermIndex::get_term is a safe method: an index that was never handed out must panic, not read out of bounds)", ops, s.kind())); break; } } } }
+        // owned copies of what the stores return: sorted (Ord of SimpleTerm) they are the sorted expected terms; to_triple of a quoted triple gives its components
+        if failure.is_none() { for (i, h) in slots.iter().enumerate() { if let Some(h) = h { let s = h.get();
+            let mut got: Vec<ST> = (0..s.len()).map(|k| deep(s.term_at(k))).collect(); let mut exp: Vec<ST> = shadow[i].terms.iter().map(|x| x.1.clone()).collect();
+            let tt = got.iter().zip(exp.iter()).all(|(g, e)| match (g.clone().to_triple(), e.triple()) { (None, None) => true, (Some(x), Some(y)) => (0..3).all(|j| same_term(&x[j], y[j])), _ => false });
+            got.sort(); exp.sort();
+            let bs: std::collections::BTreeSet<ST> = exp.iter().cloned().collect(); // BTreeSet orders with Ord::cmp, sort with PartialOrd::lt
+            let ord = bs.len() == exp.len() && bs.iter().zip(got.iter()).all(|(b, g)| same_term(b, g)) && got.windows(2).all(|w| Ord::cmp(&w[0], &w[1]) == std::cmp::Ordering::Less);
+            if !tt || !ord || got.len() != exp.len() || got.iter().zip(exp.iter()).any(|(g, e)| !same_term(g, e)) { failure = Some(format!("after {:?}: store #{i} ({}): owned copies of its terms, sorted or split by to_triple, differ from the expected ones", ops, s.kind())); break; }
+        } } }
         let text = format!("{ops:?}");
         if let Some(f) = &failure { sum.oracle_failures.push((idx.to_string(), f.clone())); }
         // observation (only read content when the audit says it is safe to)
         let mut obs = vec![];
-        for (i, s) in slots.iter().enumerate() { if let Some(s) = s {
+        for (i, h) in slots.iter().enumerate() { if let Some(h) = h { let s = h.get();
             let au = s.audit();
-            let content: Vec<u64> = if au.iter().all(|b| *b) { (0..s.len()).map(|k| tid(&s.term_at(k))).collect() } else { vec![] };
+            let content: Vec<u64> = if au.iter().all(|b| *b) { (0..s.len()).map(|k| ids.id(s.term_at(k))).collect() } else { vec![] };
             obs.push(format!("({i}, {}, {})", coq_list(au.iter().map(|b| coq_bool(*b).to_string())), coq_list(content.iter().map(|x| x.to_string()))));
         } }
         if a.only.is_some() { println!("CASE {idx}: {text}\nOBS {obs:?}\nFAIL {failure:?}"); }
         if seen.insert(text.clone()) && interesting { sum.distinct_nontrivial += 1; }
-        for o in &ops { sum.bump(&format!("op:{}", format!("{o:?}").split('(').next().unwrap())); }
-        for s in slots.iter().flatten() { sum.bump(&format!("live-at-end:{}", s.kind())); }
+        for o in &ops { sum.bump(&format!("op:{}", format!("{o:?}").split('(').next().unwrap())); if let Op::Clone(_, _, v) = o { sum.bump(&format!("clone-via:{v}")); } if let Op::Collect(_, _, _, h) = o { sum.bump(&format!("collect-how:{h}")); } }
+        for h in slots.iter().flatten() { sum.bump(&format!("live-at-end:{}", h.get().kind())); }
         if sum.samples.len() < 3 && interesting && text.len() < 900 { sum.samples.push(format!("case {idx}: {text}")); }
         sum.evaluations += 1;
-        cases.push((idx, format!("history_ok {} {}", coq_list(coq_ops.clone()), coq_list(obs))));
+        cases.push((idx, format!("history_ok (concat {}) {}", coq_list(coq_steps.clone()), coq_list(obs))));
     }
     for b in inline_term_scenarios() { sum.oracle_failures.push(("inline-terms".into(), b)); }
     sum.evaluations += 4; sum.bump("scenario:inline self-borrowing term type");
+    for b in static_clone_scenarios() { sum.oracle_failures.push(("static-clone".into(), b)); }
+    sum.evaluations += 3; sum.bump("scenario:static-clone (what a caller keeps of a store's terms owns its text)");
+    for b in owned_accessor_scenarios() { sum.oracle_failures.push(("owned-accessors".into(), b)); }
+    sum.evaluations += 4; sum.bump("scenario:owned-string accessors and native literals");
     if a.only.is_none() {
         sum.shards = write_shards(&a.out, "From Sophia.C10 Require Import Model.", &cases, a.shards);
         std::fs::write(format!("{}/summary.json", a.out), sum.to_json()).unwrap();
